@@ -12,782 +12,246 @@ Definition show_fres (r : fres) : string :=
   end.
 Definition check (rs : list rune) : string := digest (show_fres (format_res rs)).
 Definition full (rs : list rune) : string := show_fres (format_res rs).
-Eval vm_compute in ("<<<M4010>>>" ++ check (runes_of_ascii "
-packet
-    float 
-{ repeat
-    matchKey 
-, char[] 	 // " ++ [128512]%N ++ runes_of_ascii " emoji
-	repeatCount
-
-    `{ , }`,
-
-    char[ 
-00
-	]
-
-a1
-    ,
-    char[]
-
-roots
-	`" ++ [28040; 24687; 31867; 22411]%N ++ runes_of_ascii "` , @rightPad	( '0' ) repeatCount ,match
-MetaDataX
-    as  tag
-    { 
-""`tick`"": tag
-
-    ,
-[ ""it's"",
-42
-	]:	asx 
-    // packet A { u8 x, }
-  , ""a	b""  :
-
-    As  65535 :	calculatedFrom
-007 :
-stringy ,
-
-007
-: Packet// " ++ [128512]%N ++ runes_of_ascii " emoji
-    ,	}  ,char[ // " ++ [27880; 37322]%N ++ runes_of_ascii "
-		0	]  //	t
-i8i8 
-`a\`
-,
-	}
-root  packet
-
-chars
+Eval vm_compute in ("<<<M134>>>" ++ check (runes_of_ascii "packet int
     {
-@calculatedFrom( 
-""packet""	)	// " ++ [27880; 37322]%N ++ runes_of_ascii "
-
-i64_ string_ , match
-Pad // " ++ [128512]%N ++ runes_of_ascii " emoji
-as
-MetaDataX
-    {
-0123456789 : 
-repeatCount ,
-    [
-	""" ++ [128512]%N ++ runes_of_ascii """
-    ]
-: a1
-,
-
-[ 
-""" ++ [233]%N ++ runes_of_ascii "t" ++ [233]%N ++ runes_of_ascii """
-    , 
-7	, //	t
-""x y""
-	,  00 ] :
-//
-// a // b
-
-	int
-,}
-    ,
-repeat
-Foo
-	`say ""hi""`
-
-,
-    @lengthOf(
-
-As 
-)u32 
-leftPad
-@lengthOf(  zchar
-    ) 	 // a // b
-	,
-	    // " ++ [128512]%N ++ runes_of_ascii " emoji
-	}	// c
-  packet 
-u128 {	@calculatedFrom(""`tick`""  
-      // packet A { u8 x, }
-	  )float	Z9_``
-
-,
-	string packetx
-	, 
-	// @lengthOf(
-// packet A { u8 x, }
-	@leftPad  ( '\x00'
-
-)
-uint8
-    metadata,
-
-    @leftPad () uint32
-    a1
-
-    `two words`,
-
-@tag(0123456789
-	// packet A { u8 x, }
-  	// packet A { u8 x, }
-  )
-
-repeat zchar[
-42	]
-	pack
-`two words`
-	,
-repeat stringy`line1
-line2`
-    , uint8x
-	`" ++ [233]%N ++ runes_of_ascii "`,
-
-    falsey`say ""hi""` ,}
-packet
-
-    a1 {
-
-    uint16
-
-    float ,
-    @lengthOf( string_
-    ) char[
-
-0123456789] BodyLength
-
-    @lengthOf(
-	charz/// triple
-    )
-	    // `tick` ""quote"" 'q'
-
-	`say ""hi""`,	@rightPad
-	(
-    '\x00' )Z9_
-    @lengthOf(
-
-zchar  ),
-    calculatedFrom@lengthOf( 
-pack  )
-	`tab	here`,
-@lengthOf(
-
-    MetaDataX )
-	@calculatedFrom( 
-""abc""
-)	@calculatedFrom(
-
-    ""a\\""
-)
-match	falsey	//
-as
-body{ 	 // " ++ [27880; 37322]%N ++ runes_of_ascii "
-	""a\""b"":  o  //x
-, 255
-:
-    uint8x ,	[ // `tick` ""quote"" 'q'
-65535]
-: 
-BodyLength} , 	 /// triple
-	  char[] x_y_z
-    , // trailing space 
-
-@tag(
-    // trailing space 
-      /// triple
-      0  ) int16
-    x
-
-`crlf
-line`,
-
-    match	Foo
-
-as 
-zchar
-	{
-    """ ++ [233]%N ++ runes_of_ascii "t" ++ [233]%N ++ runes_of_ascii """	:
-    u128, }
-
-    ,
-	@lengthOf(x_y_z )
-As
-
-    @calculatedFrom(
-	""packet"" 
-) , repeat
-
-Header { string_ 
-`{ , }`, match chars
-as uint8x	{""it's""
-
-:	lengthOf
-
-    ,  [
-
-""\n""
-, 3
-,""CRC32"",	// a // b
-		10  
-  // " ++ [27880; 37322]%N ++ runes_of_ascii "
-    , 
-""" ++ [28040; 24687]%N ++ runes_of_ascii """]: falsey }
-
-, repeat
-    char[]	o
-
-`
-`
-	,  i32	len
-	@calculatedFrom(
-
-    """ ++ [233]%N ++ runes_of_ascii "t" ++ [233]%N ++ runes_of_ascii """
-)  `" ++ [28040; 24687; 31867; 22411]%N ++ runes_of_ascii "` ,	}	// trailing space 
-  	, 	 // " ++ [27880; 37322]%N ++ runes_of_ascii "
-    }
-
-")).
-Eval vm_compute in ("<<<M1057>>>" ++ check (runes_of_ascii "packet Foo
-{ @lengthOf(chars ) @leftPad (
-    //x
-    ) repeat
-    metadata
-// @lengthOf(
-// c
-{
-// packet A { u8 x, }
-// " ++ [128512]%N ++ runes_of_ascii " emoji
-_x,u body , match A as Logon { [ ""\" ++ [233]%N ++ runes_of_ascii """ ,10 ,	7 , """" , 0
-//
-// @lengthOf(
-]
-    // packet A { u8 x, }
-    :	stringy, """ ++ [128512]%N ++ runes_of_ascii """
-    // `tick` ""quote"" 'q'
-    : msg_type ,} , uint16
-    asx
-@calculatedFrom(
-    """ ++ [233]%N ++ runes_of_ascii "t" ++ [233]%N ++ runes_of_ascii """	)
-, } , @lengthOf(
-metadata
-    ) match
-matchKey
-as o
-//x
-// `tick` ""quote"" 'q'
-{[ 65535
-,	255 ]: rootA,
-} , @lengthOf(
-    Z9_ )
-match Header as
-o{ 4294967296 : pack , 65535 : MetaDataX
-,  ""CRC32"" : leftPad ,
-[ ""{,}""] :	calculatedFrom
-    , //x
-""" ++ [28040; 24687]%N ++ runes_of_ascii """ // packet A { u8 x, }
-: o ""a\\"" :u
-    ,
-    }
-, @tag( 42 ) @lengthOf( options1	) @lengthOf( o) // c
-match  options1 // `tick` ""quote"" 'q'
-as uint8x{ [
-//x
-// " ++ [27880; 37322]%N ++ runes_of_ascii "
-1 , ""CRC32""	, ""a\\""
-,
-//x
-// c
-1
-, ""// no comment"" , 007  ]
-// a // b
-// `tick` ""quote"" 'q'
-:
-int 0	: repeatCount ,0123456789  :f32a
-[
-//x
-// @lengthOf(
-255, ""\" ++ [233]%N ++ runes_of_ascii """ ,
-""a\\"" ]
-:asx
-,1 : Header
-    // trailing space 
-    , } , match	tag as _x // a // b
-{00
-    : lengthOf ,// " ++ [27880; 37322]%N ++ runes_of_ascii "
-}  , repeat char[] i64_
-,match
-    // " ++ [27880; 37322]%N ++ runes_of_ascii "
-    msg_type as Pad // c
-{// a // b
-""// no comment""
-:asx ,	[
-""" ++ [28040; 24687]%N ++ runes_of_ascii """
-    ,
-""\" ++ [233]%N ++ runes_of_ascii """ ] // c
-:x
-    ,
-0:
-u , /// triple
-10
-:
-Foo
-, } ,
-// trailing space 
-/// triple
-@rightPad
-    ( )
-    //	t
-    u8x
-    ,@leftPad (	'\x00')
-u64
-crc @calculatedFrom( ""`tick`""
-)
-`
-` , @lengthOf( rootA ) zchar[ 00 ]	roots
-, }MetaData
-MetaDataX
-{} packet
-    len // " ++ [27880; 37322]%N ++ runes_of_ascii "
-{  repeat Z9_//x
-{ i8
-    //
-    i8i8,
-    }, match repeatCount
-as
-// trailing space 
-// " ++ [27880; 37322]%N ++ runes_of_ascii "
-asx
-{ ""{,}""
-: tag , 65535 // trailing space 
-: Foo	, 7 : f32a , [
-    """ ++ [28040; 24687]%N ++ runes_of_ascii """ , 0 ]
-    ://	t
-T	,
-    [ 00 , """ ++ [128512]%N ++ runes_of_ascii """
-    // " ++ [27880; 37322]%N ++ runes_of_ascii "
-    ]
-: x_y_z 0123456789 : MetaDataX, }
-    , char[
-    007
-]
-x `" ++ [233]%N ++ runes_of_ascii "`
-//	t
-// " ++ [27880; 37322]%N ++ runes_of_ascii "
-,@leftPad ( )
-i16 Logon@lengthOf( MetaDataX ) ,
-} packet u8x {
-}
-")).
-Eval vm_compute in ("<<<M226>>>" ++ check (runes_of_ascii "root packet Foo { @tag(00	)
-char[] _x
-@calculatedFrom(
-    // trailing space 
-    ""{,}"" ) ,@rightPad	( '0' )f32 Pad@calculatedFrom( ""abc""
-// @lengthOf(
-// " ++ [27880; 37322]%N ++ runes_of_ascii "
-)
-, @rightPad
-    ( '0' )  repeat falsey string_
-// @lengthOf(
-// " ++ [128512]%N ++ runes_of_ascii " emoji
-`{ , }` , @calculatedFrom( ""abc"" )//
-@tag(
-00 ) rootA@calculatedFrom( ""it's"" ), BodyLength/// triple
-lengthOf `doc` , Z9_{ f64 Z9_ ,T
-charz
-    `" ++ [233]%N ++ runes_of_ascii "`
-, x {
-tag crc,
-    repeat uint32	chars
-, zchar[ 0123456789 ]roots ,
-int64 charz@calculatedFrom(
-    ""it's"" ) `" ++ [28040; 24687; 31867; 22411]%N ++ runes_of_ascii "` ,} , i8 msg_type//	t
-@lengthOf( options1 )
-,
-    } ,
-    repeat MetaDataX { matchKey i64_ , string tag @lengthOf(
-    msg_type )// trailing space 
-, tag { string f32a
-,// " ++ [27880; 37322]%N ++ runes_of_ascii "
-match crc as u128
-{	4294967296  :
-    Z9_ ,""" ++ [28040; 24687]%N ++ runes_of_ascii """ : a1 ,//	t
-65535 : T , [ ""CRC32"" ,
-1
-, ""packet"" ]
-: x_y_z , } ,	string matchKey @calculatedFrom(""" ++ [28040; 24687]%N ++ runes_of_ascii """ ) `two words`	, } , char[ 65535 // trailing space 
-] Header@calculatedFrom( ""CRC32"" ) `// not a comment` ,
-} ,match
-Foo as metadata	{
-[""1"" ,
-//	t
-// " ++ [27880; 37322]%N ++ runes_of_ascii "
-""""
-] :  metadata	[ 0123456789  ] : tag ,
-""1"" :  T
-//	t
-// a // b
+match Pad as	Z9_ { [65535,
+    ""// no comment"" , ""a	b""//x
+, // " ++ [128512]%N ++ runes_of_ascii " emoji
+""CRC32"" ,
+00 , 0123456789 , 0]
+:  Z9_
 4294967296
-    :x , // packet A { u8 x, }
-0 :
-trueish ,	""{,}"" :  metadata , // a // b
-}, zchar[255
-]
-    u128
-@lengthOf(float ) ,// trailing space 
-} packet a1
-{ @rightPad ( ' ' ) @tag( 7//x
-)@tag( 10 )
-//	t
-// trailing space 
-Header { Packet @lengthOf( lengthOf ) , string
-options1
-,
-match zchar as pack
-{ """" :o , """ ++ [28040; 24687]%N ++ runes_of_ascii """ :	leftPad  , """ ++ [28040; 24687]%N ++ runes_of_ascii """ :
-crc } ,	Z9_
-//x
-// trailing space 
-{
-    //
-    len//	t
-int ,  } ,
-    },}
-")).
-Eval vm_compute in ("<<<M995>>>" ++ check (runes_of_ascii "// " ++ [128512]%N ++ runes_of_ascii " emoji
-packet options1 {
-match
-    MetaDataX  as
-matchKey
-{ 4294967296:  i8i8 ,  7	: // a // b
-Header ,
-    // trailing space 
-    } ,
-    crc Pad `doc`, @leftPad
-/// triple
-//
-( ) repeat o f32a `u8 x,` , @lengthOf( calculatedFrom
-    ) repeat int32 body
-,// trailing space 
-@tag(0123456789)
-@tag( 42 ) @calculatedFrom( ""\n"" ) Foo { A	,//x
-} , @tag(
-    3 )@tag(3	)char	Header
-    `it's`
-    // packet A { u8 x, }
-    , repeat float { char[ 007
-    // `tick` ""quote"" 'q'
-    ] // " ++ [27880; 37322]%N ++ runes_of_ascii "
-u8x `tab	here` ,	f32a
-    { // packet A { u8 x, }
-match As as MetaDataX {4294967296 :u
-, 1
-    // @lengthOf(
-    :Pad ,
-// " ++ [128512]%N ++ runes_of_ascii " emoji
-//x
-3 // " ++ [27880; 37322]%N ++ runes_of_ascii "
-:  x_y_z,
-""" ++ [28040; 24687]%N ++ runes_of_ascii """
-    :
-asx , 1
-    // " ++ [27880; 37322]%N ++ runes_of_ascii "
-    :matchKey
-// `tick` ""quote"" 'q'
-// packet A { u8 x, }
-,  """"
-:leftPad,
-} // `tick` ""quote"" 'q'
-,
-repeat // `tick` ""quote"" 'q'
-i16
-float
-    `u8 x,` ,
-match
-chars as
-int {"""" : rootA , // c
-""packet"":f32a
-, [ ""a	b""  , 3
-    ,4294967296 , """ ++ [28040; 24687]%N ++ runes_of_ascii """
-    // " ++ [27880; 37322]%N ++ runes_of_ascii "
-    ]: Packet
-[
-""a\""b"" ,""a	b"" , 0123456789
-    , 255 , ""\n""
-,
-    ""a	b"" ,
-00
-, ""1""
-    ]
-: //
-stringy 0123456789  : lengthOf ,10 :i64_
-, }
-    , matchKey{
-// a // b
-//	t
-repeat int16 zchar `crlf
-line`
-    // " ++ [128512]%N ++ runes_of_ascii " emoji
+: stringy ,""""//
+: f32a
     ,
-    } ,
-} ,
-    } ,repeat Pad { float32
-trueish`// not a comment` ,
-    } , repeat char[
-    0] i64_ `say ""hi""` , @tag(65535 )
-    // c
-    u128
-, }")).
-Eval vm_compute in ("<<<M463>>>" ++ check (runes_of_ascii "packet
-options1
-    { /// triple
-string
-falsey `doc`
-,float //
-BodyLength ,
-    @tag( 65535	) Logon@calculatedFrom( ""a	b"" )
-    ,	repeat matchKey _x `u8 x,`, // `tick` ""quote"" 'q'
-repeat tag{
-    repeat u8
-trueish `a\`, char[]
-    // a // b
-    u8x
-    @calculatedFrom( ""it's""), }
-,match i64_ as BodyLength//x
-{ """ ++ [28040; 24687]%N ++ runes_of_ascii """ :
-    T	, [	""packet"" ] // " ++ [128512]%N ++ runes_of_ascii " emoji
-: x_y_z ,
-    ""a\""b"" :A  , 65535 : asx [//	t
-""\n""
-,0123456789 ,0  ,  0123456789 ]: charz //
-[ ""{,}"" ,  ""a\\"" , // @lengthOf(
-255	,
-10,  1
-    , ""\" ++ [233]%N ++ runes_of_ascii """	,10
-]: metadata ,
-} , repeat
-    string x_y_z
-,
-//
-/// triple
-match i8i8
-as len
-    // @lengthOf(
-    {
-""\n""
-    : u8x , 0123456789
-: int ,10 // " ++ [128512]%N ++ runes_of_ascii " emoji
-: roots
-    , }
-,  rootA , @tag(// " ++ [27880; 37322]%N ++ runes_of_ascii "
-3)rootA @lengthOf(f32a  ) // c
-,
-    // trailing space 
-    }
-packet options1{ @calculatedFrom( """ ++ [128512]%N ++ runes_of_ascii """ ) i8i8 //
-@lengthOf( Logon )
-,
-// @lengthOf(
-// `tick` ""quote"" 'q'
-float32
-    chars`tab	here`
-,	@leftPad
-( '0' ) @tag(3 ) @calculatedFrom(
-    """" // trailing space 
-) matchKey @calculatedFrom(// packet A { u8 x, }
-""" ++ [233]%N ++ runes_of_ascii "t" ++ [233]%N ++ runes_of_ascii """
-    ) , repeat uint16	u  ``
-, @rightPad( /// triple
-) rootA ,@leftPad
-(
-    // a // b
-    '0'
-    )// @lengthOf(
-_x
-// trailing space 
+"""" :
 //	t
-Z9_	, char[	0123456789 ]
-packetx
-`crlf
-line`	,}")).
-Eval vm_compute in ("<<<M1344>>>" ++ check (runes_of_ascii "packet As { }
-MetaData
-    // " ++ [128512]%N ++ runes_of_ascii " emoji
-    BodyLength { uint32
-Z9_ `// not a comment` , }
-    packet f32a
-    //x
-    { f64 T @lengthOf(	As	)`u8 x,` ,repeat
-i16 i64_ `" ++ [28040; 24687; 31867; 22411]%N ++ runes_of_ascii "` , char[
-007] falsey
-@lengthOf(  Pad )	,
-repeat
-leftPad
-{	u64 u8x
+// " ++ [27880; 37322]%N ++ runes_of_ascii "
+Header, [""it's"" , 1,""1"" ] :
+msg_type , } , @leftPad ( )
+f32 Foo
+    // `tick` ""quote"" 'q'
+    ``	, charz {
+repeat int8
+options1  ,repeat  char[]
+T
 ,
-    char[]tag
-    ,	}// " ++ [128512]%N ++ runes_of_ascii " emoji
-, match As as len{ ""1"" :
-x_y_z ,	255 :
-    // c
-    len , 007: charz,
-    [ ""abc"" , 42, 10	, """ ++ [28040; 24687]%N ++ runes_of_ascii """ ,  ""it's""
-    ,//	t
-3
-    ] : // " ++ [27880; 37322]%N ++ runes_of_ascii "
-matchKey //	t
-, // `tick` ""quote"" 'q'
-} , // @lengthOf(
-} packet
-BodyLength { @calculatedFrom( ""// no comment""
-)@lengthOf( Logon ) @tag( 42 )
-//
-// " ++ [128512]%N ++ runes_of_ascii " emoji
-repeat rootA metadata
-,@tag(	4294967296)  repeat matchKey // @lengthOf(
-{ int8
-    pack
-,} ,
-    @tag(
-65535
-) @rightPad ( ) //
-@lengthOf( // " ++ [27880; 37322]%N ++ runes_of_ascii "
-Pad
-)uint8x `{ , }` ,  match  Foo
-as As {10 :
-    uint8x
-    ,0
-    : rootA // " ++ [128512]%N ++ runes_of_ascii " emoji
-, 007 : matchKey , [
-""x y"" ] :
-    u8x,}, float64 i64_
-@calculatedFrom( ""// no comment""// `tick` ""quote"" 'q'
-) , match
-    trueish as matchKey {
-// trailing space 
-// trailing space 
-""" ++ [233]%N ++ runes_of_ascii "t" ++ [233]%N ++ runes_of_ascii """:// trailing space 
-_x
-    , } ,
-chars @lengthOf( Packet) `crlf
-line` ,
-char[] x , } MetaData
-falsey //
-{ Z9_ options1
-``
-, } 	 ")).
-Eval vm_compute in ("<<<M3714>>>" ++ check (runes_of_ascii "packet a1 {
-    @rightPad(' ')
-    repeat a1,
-    //	t
-    repeat float32 i8i8 `two words`,
-    @lengthOf(A)
-    float zchar,
-    @rightPad('0')
-    uint32 o `doc`,
-    @calculatedFrom(""packet"")
-    repeat asx `crlf
-        line`,
-    @tag(007)
-    @calculatedFrom(""CRC32"")
-    repeat uint64 A `line1
-        line2`,
-    @leftPad('\x00')
-    // packet A { u8 x, }
+repeat string
+crc // c
+`doc`
     //x
-    string stringy ``,
-    @rightPad('\x00')
-    @tag(255)
-    body @lengthOf(Z9_),
-    match x_y_z as falsey {
-        ""\" ++ [233]%N ++ runes_of_ascii """ : options1,
+    , uint8x`a\`
+    ,} ,} packet
+    Logon{ A, u8
+metadata , @lengthOf( trueish )
+// a // b
+// packet A { u8 x, }
+@lengthOf(u8x) @lengthOf( A)
+    // " ++ [27880; 37322]%N ++ runes_of_ascii "
+    repeat string
+trueish
+    // " ++ [128512]%N ++ runes_of_ascii " emoji
+    , @tag( 3) match
+    rootA as
+    Pad // @lengthOf(
+{42 :msg_type,[ 0
+    // a // b
+    ,
+// trailing space 
+// `tick` ""quote"" 'q'
+""" ++ [128512]%N ++ runes_of_ascii """ ,00
+] : asx
+, [ """ ++ [233]%N ++ runes_of_ascii "t" ++ [233]%N ++ runes_of_ascii """ ,""{,}""
+,""" ++ [233]%N ++ runes_of_ascii "t" ++ [233]%N ++ runes_of_ascii """ , 255 ] //	t
+:T ""x y"" : calculatedFrom
+[
+""a	b""	,0123456789	,
+    ""{,}"" ,
+    3 , 3
+, 7 ,
+    4294967296 ,  4294967296 ]: Header , [0,4294967296,
+    10
+    // packet A { u8 x, }
+    ,
+007 , 007 ,1 , ""1"",	""`tick`""
+    //	t
+    ] : Packet }/// triple
+,
+    zchar[
+0
+    ] asx @lengthOf( x_y_z
+    )
+`{ , }`
+,
+repeat char[
+    7 ] leftPad, stringy`` , falsey //
+repeatCount
+`{ , }` ,}packet
+    MetaDataX // packet A { u8 x, }
+{
+options1,	}
+    // " ++ [27880; 37322]%N ++ runes_of_ascii "
+    packet
+    zchar { // " ++ [27880; 37322]%N ++ runes_of_ascii "
+uint16 falsey ,  match string_ as BodyLength {
+[
+    4294967296 , 42 ,255 , ""1""
+, """ ++ [28040; 24687]%N ++ runes_of_ascii """ ,""packet"" ,""`tick`"" ]
+: Logon ,
+7 : packetx , } , @leftPad  (
+) @calculatedFrom(
+    /// triple
+    ""\n"" )
+    @leftPad  () match T as
+packetx {""1"" :options1, } //
+,uint8 MetaDataX@lengthOf(	roots  ), @tag( 0123456789 //	t
+) body// packet A { u8 x, }
+@calculatedFrom( ""packet"" // @lengthOf(
+)
+// c
+// trailing space 
+`{ , }` ,@lengthOf(	roots )
+zchar[ 0123456789 ]
+repeatCount
+    , repeat int32 matchKey `a\` , @lengthOf(
+    options1 )u8 pack , @rightPad( ' ' ) float32 f32a
+    , @rightPad (
+    /// triple
+    '\x00' )
+    @rightPad(	) @calculatedFrom(// trailing space 
+""CRC32"" )repeat
+pack { // @lengthOf(
+zchar[00 ] falsey ``
+    , match calculatedFrom	as // c
+leftPad { 65535 // trailing space 
+: // packet A { u8 x, }
+Z9_
+    , 007//x
+:
+charz,} , repeat zchar[7] Pad ,} , }
+//x
+")).
+Eval vm_compute in ("<<<M1962>>>" ++ check (runes_of_ascii "// @lengthOf(
+root packet leftPad {
+    match Logon as msg_type {
+        ""it's"" : int,
+        """ ++ [128512]%N ++ runes_of_ascii """ : charz,
+        ""a\\"" : options1,
     },
-    Logon falsey `say ""hi""`,
+    @rightPad(' ')
+    asx `doc`,
+    @leftPad('0')
+    uint32 charz,
+    @tag(255)
+    zchar[10] Pad ``,
+    string asx `it's`,
 }
 
-packet Foo {
+packet Pad {
+    @lengthOf(lengthOf)
+    @lengthOf(crc)
+    u8x `a\`,
+    float64 f32a @calculatedFrom(""a\""b"") `it's`,
+    @lengthOf(options1)
+    @tag(42)
+    @calculatedFrom(""1"")
+    zchar[7] repeatCount `say ""hi""`,
+    @calculatedFrom(""// no comment"")
+    //x
+    zchar[3] i8i8 @calculatedFrom(""// no comment"") `" ++ [233]%N ++ runes_of_ascii "`,
+    @tag(65535)
+    match o as float {
+        [10] : len,
+    },
+    @tag(3)
+    match repeatCount as Pad {
+        [
+            ""// no comment"", 42, ""\n"", 007, 3,
+            ""// no comment""
+        ] : calculatedFrom,
+    },
+    u8x {
+        repeat string x `it's`,
+        x @calculatedFrom(""" ++ [128512]%N ++ runes_of_ascii """),
+        falsey {
+            match f32a as u128 {
+                [
+                    ""it's"", 0123456789, 0, """ ++ [233]%N ++ runes_of_ascii "t" ++ [233]%N ++ runes_of_ascii """, 42,
+                    65535, 1, 255
+                ] : uint8x,
+                0 : asx,
+            },
+            repeat packetx u `{ , }`,
+            string Foo,
+            x @calculatedFrom(""a	b""),
+        },
+        o pack,
+    },// a // b
+}
+
+packet i64_ {
+    repeat char[3] a1,
 }
 
 options {
-    // @lengthOf(
-    // `tick` ""quote"" 'q'
-    f32a = ""a\""b"";
-    float = '0';
-    calculatedFrom = 65535;
-    msg_type = '0';
-    // trailing space 
-    A = """"
-}
-
-root packet string_ {
-    match float as u128 {
-        [""\n""] : Packet,
-    },
-}
-
-packet charz {
-    lengthOf @calculatedFrom(""" ++ [28040; 24687]%N ++ runes_of_ascii """),
-    @leftPad(' ')
-    repeat chars `" ++ [28040; 24687; 31867; 22411]%N ++ runes_of_ascii "`,
-    match leftPad as a1 {
-        ""`tick`"" : string_,
-        // c
-        // c
-        10 : string_,
-        4294967296 : Foo,
-    },
 }")).
-Eval vm_compute in ("<<<M650>>>" ++ check (runes_of_ascii "// `tick` ""quote"" 'q'
-packet
-Logon { @lengthOf( //
-Logon)	repeat f64// " ++ [27880; 37322]%N ++ runes_of_ascii "
-MetaDataX ,
-char[ 0
-]
-    // `tick` ""quote"" 'q'
-    options1
-,
-    // " ++ [27880; 37322]%N ++ runes_of_ascii "
-    repeat Foo
-    `a\`  , // `tick` ""quote"" 'q'
-@lengthOf( Header) u16 u128//x
-@calculatedFrom( // `tick` ""quote"" 'q'
-""\" ++ [233]%N ++ runes_of_ascii """
-) //	t
-,
-    @lengthOf(	len )Header // trailing space 
-{MetaDataX @calculatedFrom( ""a\""b""),
-i32 rootA @calculatedFrom(
-""a\""b"" //
-)	`" ++ [28040; 24687; 31867; 22411]%N ++ runes_of_ascii "`	,
-match A as
-packetx { [0123456789]	: rootA
-    , } ,
-    }
-    ,  }
-    options{
-Foo
-    =// c
-""CRC32""/// triple
-;} MetaData MetaDataX
-    { }packet lengthOf {// packet A { u8 x, }
-repeat char[  3
-] Pad,@calculatedFrom(  """ ++ [28040; 24687]%N ++ runes_of_ascii """ ) int16 roots
-@lengthOf(
-Logon )
-, MetaDataX
-{ //x
-char[]
-asx@lengthOf( calculatedFrom//x
-) // " ++ [128512]%N ++ runes_of_ascii " emoji
-, string
-    //
-    A@lengthOf( /// triple
-Logon ) ,
-char[]pack,}
-    /// triple
+Eval vm_compute in ("<<<M273>>>" ++ check (runes_of_ascii "root packet T // trailing space 
+{
+//	t
+//
+@rightPad( // " ++ [27880; 37322]%N ++ runes_of_ascii "
+'\x00'
+    ) repeat metadata {repeat
+    i64 Z9_ , }
+    , } options {_x = char[] ; tag
+    =
+    // packet A { u8 x, }
+    uint32 calculatedFrom	=u16;  } packet // c
+packetx { @leftPad /// triple
+(' '	) int trueish , packetx
+{
+    leftPad	@lengthOf( //	t
+string_ )
+    , // `tick` ""quote"" 'q'
+repeat o	string_	,  match // " ++ [27880; 37322]%N ++ runes_of_ascii "
+stringy as packetx{ 0 :// `tick` ""quote"" 'q'
+pack,
+    // @lengthOf(
+    ""CRC32""	:tag ,
+    // trailing space 
+    """ ++ [128512]%N ++ runes_of_ascii """:
+    Z9_	4294967296 :  chars//x
+,007 : calculatedFrom ,10
+    : u8x , }
+    , } // " ++ [27880; 37322]%N ++ runes_of_ascii "
+, repeat BodyLength{ //	t
+repeat char[ 3 ]	metadata `a\` ,  repeat char
+pack`a\` , char
+Header
+    //	t
+    @calculatedFrom(
+""// no comment"")
     ,
-    repeat options1 u ,@tag( 1 )
-    repeat // c
-pack	trueish ,repeat string repeatCount
-, @calculatedFrom( """ ++ [28040; 24687]%N ++ runes_of_ascii """)  f32 float
-    @calculatedFrom(""{,}"" )  , }")).
+    uint32 roots
+    @lengthOf( i64_ ) ,
+    }
+    ,
+// a // b
+// trailing space 
+pack , repeat len Header `
+` ,	f64	f32a, char[] x,
+    Header @lengthOf(a1	) , asx
+@lengthOf( calculatedFrom	) ,  } MetaData roots {
+options1 As// a // b
+, string_
+// `tick` ""quote"" 'q'
+// c
+float
+`{ , }`
+/// triple
+// packet A { u8 x, }
+, // trailing space 
+} 	 ")).
 Eval vm_compute in ("<<<M357>>>" ++ check (runes_of_ascii "MetaData msg_type{ string
 charz , crc u8x  ,
     u16 x_y_z
@@ -841,1841 +305,827 @@ packetx @lengthOf(	o )
 , }
 // @lengthOf(
 ")).
-Eval vm_compute in ("<<<M1084>>>" ++ check (runes_of_ascii "packet
-lengthOf { crc @calculatedFrom(
-"""" )  `two words` , @lengthOf(crc )
-    // c
-    @calculatedFrom( ""x y""
-    ) u16 Logon
-`line1
-line2`
-    ,
-    } MetaData u128{ } packet
-len {  match
-    options1 as pack { 00
-: BodyLength, }, @calculatedFrom( ""a	b""
-) asx Z9_ `` , @rightPad	( ) u32 calculatedFrom @lengthOf( asx)`doc`
-    , @calculatedFrom(
-    """ ++ [28040; 24687]%N ++ runes_of_ascii """	)uint8x , repeat zchar[ // " ++ [128512]%N ++ runes_of_ascii " emoji
-007 ]u128 ,
-    stringy { repeat zchar[ 3 ] A
-, repeat i64 o/// triple
-`` ,
-f32// @lengthOf(
-packetx
-    @calculatedFrom( ""\" ++ [233]%N ++ runes_of_ascii """ ) , packetx charz ,	}, match int as Z9_ { ""a\\"" :	crc
-// " ++ [128512]%N ++ runes_of_ascii " emoji
-// " ++ [128512]%N ++ runes_of_ascii " emoji
-, """"
-    /// triple
-    : trueish , [00 , ""\" ++ [233]%N ++ runes_of_ascii """  , 4294967296 ] : Packet
-,}
-    ,
-/// triple
-// packet A { u8 x, }
-u8
-// packet A { u8 x, }
-/// triple
-msg_type
-// @lengthOf(
-//
-@lengthOf(i64_ ) ,} root packet A{BodyLength @lengthOf( stringy ) ,
-    rootA
-As ,
-repeat BodyLength options1	`a\` ,}")).
-Eval vm_compute in ("<<<M1159>>>" ++ check (runes_of_ascii "root packet T
-    {
-@tag(0
-// c
-// `tick` ""quote"" 'q'
-)
-u64
-int
-// `tick` ""quote"" 'q'
-//
-, match rootA as BodyLength { ""it's"" : o , 10: int // a // b
-, ""packet"" : string_, [""abc"" // `tick` ""quote"" 'q'
-, 3
-    ,
-    0123456789 ,
-    007 ,7 , //
-3
-    ,007
-    ] : int,
-    } , match i64_ as
-// packet A { u8 x, }
-// trailing space 
-options1
-    { 0123456789
-: zchar , 00  :pack, } ,match
-// c
-// packet A { u8 x, }
-zchar as
-options1 {
-    ""it's""
-:matchKey  , ""1"" :// `tick` ""quote"" 'q'
-u128
-,  ""`tick`""  :
-    trueish
-    // packet A { u8 x, }
-    255 // " ++ [27880; 37322]%N ++ runes_of_ascii "
-:
-crc
-    , }  ,  } packet Z9_
-// `tick` ""quote"" 'q'
-// packet A { u8 x, }
-{ BodyLength@calculatedFrom(
-// " ++ [27880; 37322]%N ++ runes_of_ascii "
-// " ++ [27880; 37322]%N ++ runes_of_ascii "
-""x y"" ) `" ++ [28040; 24687; 31867; 22411]%N ++ runes_of_ascii "`
-, @lengthOf( metadata// packet A { u8 x, }
-) repeat i8i8
-    zchar
-`" ++ [28040; 24687; 31867; 22411]%N ++ runes_of_ascii "` ,zchar[
-255  ] uint8x,
-int8 Z9_@calculatedFrom(
-    """" ) , } // packet A { u8 x, }")).
-Eval vm_compute in ("<<<M3830>>>" ++ check (runes_of_ascii "
+Eval vm_compute in ("<<<M2011>>>" ++ check (runes_of_ascii "
 
-  root packet 
-uint8x { 
-}  options
+  // top
+    	packet // c0
+P1  { 
 
-{ o =
-        //x
-//
-    ' ';  x_y_z
-    = 0123456789
-stringy 
-=	""packet""  }
+// c2
+u8  // c3
+  a // c4
+		, // c5
 
-packet  A { match
+  }
+// c6
+    packet
 
-falsey
+P2 	 // c8
+	{ // c9
+  P1 
+	    // c10
+,// c11
+  } packet	// c13
+P3 
 
-    as
-	string_{
+    // c14
+  {  P2// c16a
 
-    """ ++ [28040; 24687]%N ++ runes_of_ascii """
-    :
-packetx ,
-    0 :  BodyLength
-,} // @lengthOf(
-,float32 	 // " ++ [27880; 37322]%N ++ runes_of_ascii "
-string_
-    @lengthOf( a1
+	// c16b
+,
+P1 
+    // c18
+		,
 
-) ,
-    trueish
-    @calculatedFrom( 
-""abc"" ), @leftPad  //	t
-
-  ( 
-'0') string
-
-    matchKey @lengthOf(
-
-    x_y_z
-    )
-
-    ``	, leftPad 
-{
-	trueish
-    @calculatedFrom(
-""a\""b"" )  // c
-    ,} 
-,  // `tick` ""quote"" 'q'
-  @tag(
-1  
-      // trailing space 
-  ) 
-repeat
-float64
-
-    calculatedFrom	`{ , }` ,
-
-@leftPad  
-  // @lengthOf(
-  	('\x00'
-)match Z9_  //	t
-	  as
-	crc{[ 0 ]:	a1, //
-  },_x@lengthOf(	T
-) // trailing space 
-  ,
-x_y_z
-`" ++ [28040; 24687; 31867; 22411]%N ++ runes_of_ascii "`
-
-// c
-	  // `tick` ""quote"" 'q'
-
-,repeat
-
-char[]Z9_  ,
-    }
-
-// " ++ [27880; 37322]%N ++ runes_of_ascii "
-")).
-Eval vm_compute in ("<<<M3531>>>" ++ check (runes_of_ascii "options
+    } 
+    // c20
+  packet // c21a
+// c21b
+P4 
+// c22
 {
 
-    LittleEndian
-	= false
-;  StringPrefixLenType =
+    repeat
 
-    u16
-;
-ArrayPrefixLenType =	u64
-	;  FixedStringPadFromLeft =
-true
-	;	FixedStringPadChar =  ' ' ; }packet
+    P3
+// c25
+	, 
 
-Logon{
-
-    u16
-    Tail 
-,	repeat string
-
-    x, i16 count ,
-@leftPad (
-    '0' ) char[
-3	]
-Note  ,
+    // c26
+P2 // c27
+  ,	// c28
 
 } 
-packet 
-Fill {} packet Heartbeat 
-{ }
-    packet
-Reject  {string	msgKind
-	,
-	repeat Logon
-	, InFlags25	{  repeat  InPrice29
-    {
+        // c29
+root packet
+	P5 
 
-    u8
-price
-	,
-	Logon	,
-repeat char[ 1  ]
-Note
+// c32
 
+	{ 	 // c33
+    P4// c34a
+  // c34b
+  	,// c35a
+  	// c35b
+P3// c36
+	, 	 // c37
+  P1  // c38
+	,
+	u8 
+// c40
+K
+
+, 	 // c42
+		match
+K // c44
+as 
+
+    // c45
+  Body  // c46a
+	  // c46b
+  {  // c47
+
+  4
+	:	// c49
+  P4 	 // c50
+  ,3
+	    // c52
+  :
+// c53
+  	P3
+    ,
+
+2
+
+// c56
+:// c57a
+
+  // c57b
+	P2
+        // c58
+  	, // c59
+    	1
+    // c60
+  :  // c61
+    P1 
 ,
+	}// c64
+    , 	 // c65
+  }  
+  // c66")).
+Eval vm_compute in ("<<<M171>>>" ++ check (runes_of_ascii "root  packet body { /// triple
+crc
+x_y_z `say ""hi""` , float// `tick` ""quote"" 'q'
+_x , T// " ++ [128512]%N ++ runes_of_ascii " emoji
+`a\`
+    // " ++ [27880; 37322]%N ++ runes_of_ascii "
+    , uint64 MetaDataX , repeat zchar[ 7 ]
+    calculatedFrom `` , uint32 len
+// c
+// @lengthOf(
+`a\` , } /// triple
+options{
+} packet	a1{ @tag( 1 )Logon @lengthOf(	options1) `{ , }` , @calculatedFrom( ""abc"")
+    /// triple
+    f32a // " ++ [27880; 37322]%N ++ runes_of_ascii "
+{leftPad { // trailing space 
+o matchKey
+``  , }
+, int32 int
+// c
+// @lengthOf(
+``
+, char[ 007 ]
+    zchar
+@lengthOf( Z9_ ) `tab	here`
+    , char[ 1 ] falsey ,  } ,
+    repeat int16 Z9_ , match	zchar as zchar{ ""packet"" :	x_y_z	,
+[3
+    // " ++ [128512]%N ++ runes_of_ascii " emoji
+    , ""CRC32"", 0,""CRC32""//
+, 0123456789 ]
+: len
+, [0 ,	4294967296
+] :
+Packet
+, [65535
+] : options1 [ 10]//	t
+: u128 , } , // packet A { u8 x, }
+}
+")).
+Eval vm_compute in ("<<<M1876>>>" ++ check (runes_of_ascii "  packet
+Logon// c1
+    { // c2
+
+  string  // c3a
+	// c3b
+user // c4
+,	// c5a
+// c5b
+    	} 
+	    // c6
+  	root packet	Frame// c9a
+  // c9b
+  { 
+    // c10
+u8 
+    // c11
+	K
+
+,	// c13
+	match
+
+    // c14
+      K 
+
+// c15
+	as 
+      // c16
+Body // c17a
+// c17b
+
+	{	1 // c19a
+    // c19b
+:
+	Logon// c21
+,  // c22a
+    	// c22b
+  2
+: 
+    // c24
+    Logout
+    // c25
+    	,
     }	,
+        // c28
+    	Tail,
+    }
 
-char[]	x,
+    packet	// c32
+Logout
+// c33
+  {	// c34
+		u16 	 // c35a
+    	// c35b
 
-Fill
+reason 	 // c36a
 
-, }  ,
-	repeat
+	// c36b
+	, // c37
+    } // c38a
+		// c38b
+  packet// c39a
+    // c39b
+	Tail	// c40
+{
 
-    Heartbeat
+    u32 
+// c42
+      crc  , // c44a
+// c44b
+    } // c45a
 
-,}root packet
-
-    Order
-	{  InNote88 {
-repeat
-	i32
-	Acct	,
-	repeat
-	i16 clOrdID ,
-
-    repeat
-
-    Logon,} ,
-u16
-tag7 
-,
-match	tag7  as 
-Body
-
-{ 
-[
-    14
-
-, 22
-    ]
-
-:
-    Logon
-	,
-55
-
-: Heartbeat, 93
-: Reject
-
-,13:Fill ,
-} , 
-}
+  // c45b
 ")).
-Eval vm_compute in ("<<<M3523>>>" ++ check (runes_of_ascii "
-options
-    {
-
-LittleEndian
-
-    = false  ;
-StringPrefixLenType =
-
-u16; ArrayPrefixLenType=u32
-
-    ; 
-} packet Order { uint8 x
-	,
-
-repeat  string
-venue
-,  }packet Heartbeat
-    {
-i64  count  ,  zchar[	1]
-Qty
-
-,
-repeat
-
-InX29
-
-{	InSeqno26 { int64  f1 ,
-
-    char[ 5
-]
-    Acct 
-,Order
-    ,
-
-},
-repeat  InSide285	{ repeat
-
-    Order
-,	char[10  ]
-Px ,
-
-    zchar[ 
-9
-
-    ]
-
-    OrderId,
-	},
-char[] venue
-	, Order, } , @rightPad ('\x00'
-)
-
-    char[ 4
-]
-
-    clOrdID
-
-    ,
-	}  root
-
-packet
-    Party 
-{ zchar[3]	f1 
-,
-
-u32
-
-    clOrdID
-
-    , u32 Px	@lengthOf(
-
-    Body
-    ),
-
-match
-	clOrdID
-    as	Body {
-	[180, 64
-
-]  :Heartbeat
-    ,11
-
-    : Order
-	,
-},u32
-Side2
-
-@calculatedFrom(
-
-""CRC32"")
-,	}
-")).
-Eval vm_compute in ("<<<M3989>>>" ++ check (runes_of_ascii "  packet 
-Foo
-
-    {@calculatedFrom( 
-""it's""
-    )	/// triple
-@calculatedFrom(""// no comment""	)pack
-@calculatedFrom(
-""// no comment""
-
-    )	`tab	here`
-, 
-}  root packet 
-options1
-	{  @tag(42 )// a // b
-    	repeat
-
-char[
-
-42 // a // b
-  ]  Packet
-    `// not a comment` 
-,Logon	{len ,	crc {zchar[65535 
-]  msg_type@calculatedFrom(
-    ""`tick`"" )
-    ,	},} ,
-
-}  packet
-    matchKey  {
-	@lengthOf(
-
-    int
-
-)  @calculatedFrom( ""// no comment""
-    )
-
-    @tag(7 
-        // `tick` ""quote"" 'q'
-    // @lengthOf(
-    ) x_y_z,
-i16
-x_y_z `say ""hi""`  ,
-@calculatedFrom(""" ++ [233]%N ++ runes_of_ascii "t" ++ [233]%N ++ runes_of_ascii """ )
-    @calculatedFrom( //x
-""""
-)
-    // a // b
-//x
-	@tag(
-4294967296 ) 
-  // @lengthOf(
-  	BodyLength  string_ 
-,  }")).
-Eval vm_compute in ("<<<M4104>>>" ++ check (runes_of_ascii "// " ++ [27880; 37322]%N ++ runes_of_ascii "
-packet leftPad {
-    // a // b
-    string As `{ , }`,
-    char[42] msg_type,
-    @lengthOf(i8i8)
-    match Foo as matchKey {
-        1 : chars,
-        65535 : o,
-        7 : calculatedFrom,
-        [65535, 7, ""a	b""] : int,
-        [
-            00, 0, ""x y"", 65535, """ ++ [128512]%N ++ runes_of_ascii """,
-            007, ""it's"", """"
-        ] : Packet,
-        """" : float,
-    },
-    u64 Logon @calculatedFrom(""" ++ [128512]%N ++ runes_of_ascii """),
-    @calculatedFrom(""a	b"")
-    pack {
-        float32 charz `line1
-        line2`,
-    },
-}
-
-MetaData u128 {
-    repeatCount len `" ++ [233]%N ++ runes_of_ascii "`,
-    BodyLength charz,
-    u8x trueish `a\`,
-    Header msg_type `line1
-    line2`,
-    string stringy,// " ++ [128512]%N ++ runes_of_ascii " emoji
-    char[] u128 `" ++ [233]%N ++ runes_of_ascii "`,
-}
-
-options {
-}")).
-Eval vm_compute in ("<<<M452>>>" ++ check (runes_of_ascii "  packet BodyLength{
-}
-options {} packet uint8x { } packet chars {
-@tag( //x
-007)
-pack { stringy
-`doc` , match
-    f32a as  calculatedFrom{
-[""a	b""
-, 00 // c
-,
-007 ,""a	b"" ]
-:
-u8x }  ,} , f32 options1@lengthOf(
-leftPad ) , @calculatedFrom(
-    ""packet""
-) leftPad
-, // `tick` ""quote"" 'q'
-char stringy//x
-, char[] A @calculatedFrom( // " ++ [27880; 37322]%N ++ runes_of_ascii "
-""abc""
-) ,  @tag(0	) char[
-    4294967296] int @calculatedFrom( /// triple
-""x y""	)
-, repeat
-x
-{ stringy @calculatedFrom(	""packet"" )
-`tab	here`
-    , i16 asx
-    `" ++ [233]%N ++ runes_of_ascii "` ,
-f32a ,tag
-    @calculatedFrom(  """" )`" ++ [233]%N ++ runes_of_ascii "` ,}, u32
-    // a // b
-    Header
-, repeat f32a u128 `{ , }` , }options { pack = false ; }
-")).
-Eval vm_compute in ("<<<M1000>>>" ++ check (runes_of_ascii "MetaData rootA
-{u64
-trueish	, metadata calculatedFrom// @lengthOf(
-,
-// " ++ [128512]%N ++ runes_of_ascii " emoji
-// `tick` ""quote"" 'q'
-u8
-u128 ,
-    chars  pack ,
-    zchar lengthOf `line1
-line2` ,
-}root packet //	t
-len{ @lengthOf( trueish)
-i8 Z9_
-`" ++ [28040; 24687; 31867; 22411]%N ++ runes_of_ascii "` , @leftPad
+Eval vm_compute in ("<<<M296>>>" ++ check (runes_of_ascii "root
+packet i64_ // " ++ [27880; 37322]%N ++ runes_of_ascii "
+{match // " ++ [128512]%N ++ runes_of_ascii " emoji
+rootA as stringy {
+    10 : int , 7 : chars
+, 7: int 4294967296: // @lengthOf(
+Foo , [// trailing space 
+7 , """ ++ [28040; 24687]%N ++ runes_of_ascii """  ]  :// c
+BodyLength [ 0 ,""1""
+    , 00 , 7
+    ,""it's"" ] :
+As ,
+    } ,
+repeat char[] a1`u8 x,`, @leftPad
+// packet A { u8 x, }
+// " ++ [27880; 37322]%N ++ runes_of_ascii "
 (
-)
-    match
-zchar // " ++ [27880; 37322]%N ++ runes_of_ascii "
-as trueish {00:As,""" ++ [128512]%N ++ runes_of_ascii """
-    : o
-    ,
-[ 42 ] : a1
-// `tick` ""quote"" 'q'
-// `tick` ""quote"" 'q'
-,
-10// trailing space 
-: len } , repeat As , @leftPad (	'0' )
-int32 calculatedFrom ,
-repeat Header  ,
-    @rightPad
-//
-// " ++ [27880; 37322]%N ++ runes_of_ascii "
-(' ') // packet A { u8 x, }
-calculatedFrom	repeatCount,
-    msg_type @lengthOf( // c
-T ) ,
-    }
-    packet calculatedFrom
-    { }
-
-")).
-Eval vm_compute in ("<<<M1384>>>" ++ check (runes_of_ascii "MetaData u8x {  _x Foo `say ""hi""`
-, }MetaData x_y_z { char rootA ,
-    }
-    options {
-    f32a	= true} packet lengthOf {
-    zchar[
+    // trailing space 
+    ' '	) packetx , @calculatedFrom(  ""\n"")  repeat matchKey
+    { char[7
     // `tick` ""quote"" 'q'
-    255 ]  trueish@calculatedFrom(	""" ++ [233]%N ++ runes_of_ascii "t" ++ [233]%N ++ runes_of_ascii """	) ,@lengthOf( len) zchar[
-007  ] // packet A { u8 x, }
-roots @lengthOf( o)
-// @lengthOf(
-// `tick` ""quote"" 'q'
-, char[
-7 ] o, Pad`
-`
-, char[ 42
-]
-f32a//
-@lengthOf( crc) , @lengthOf(
-// `tick` ""quote"" 'q'
-// @lengthOf(
-lengthOf//
-) @calculatedFrom(
-""CRC32"" )@leftPad	( '0' )
+    ] falsey
+    `crlf
+line` , } ,
+// c
+/// triple
+@lengthOf( f32a ) uint8
+Z9_
+,
+// a // b
 //	t
-// " ++ [27880; 37322]%N ++ runes_of_ascii "
-repeat
-crc Foo
-, asx @lengthOf( trueish ) `a\`	,	@lengthOf( o ) string crc `it's` , }
+falsey ,	repeat leftPad ,  @tag(1 ) u8x@lengthOf(  i64_
+) , }
 ")).
-Eval vm_compute in ("<<<M4434>>>" ++ check (runes_of_ascii "options {
-    tag = ""it's"";
-    int = zchar[00];
-    x_y_z = ""a	b"";
-    packetx = ' ';
-}
+Eval vm_compute in ("<<<M1787>>>" ++ check (runes_of_ascii "// top
+root packet msg_type {
+    // c3
+    i64 options1,// c6
+    @lengthOf(f32a)
+    // c9
+    repeat uint16 Foo,// c13
+    @calculatedFrom(""x y"")
+    // c16
+    repeat int64 pack,// c20
+    @leftPad(' ')
+    // c24
+    uint8 Foo,// c27
+}// c28
 
 packet rootA {
-    uint8x @calculatedFrom(""CRC32""),// " ++ [27880; 37322]%N ++ runes_of_ascii "
-    u {
-        repeat string repeatCount `line1
-        line2`,
-        repeat Logon {
-            f32a @lengthOf(roots),
-            Packet {
-                int32 Z9_ `u8 x,`,
-            },
-            Packet Packet,
-        },
-        repeat repeatCount zchar,
-    },
-    a1 @calculatedFrom(""abc""),
-}// `tick` ""quote"" 'q'
-
-root packet crc {
-    @tag(00)
-    char[7] asx @lengthOf(T) ``,
-}")).
-Eval vm_compute in ("<<<M4101>>>" ++ check (runes_of_ascii "
-MetaData
-	// packet A { u8 x, }
-	// @lengthOf(
-    calculatedFrom
-
-{zchar[
-    3 ] u8x
-,
-	i32
-	o ,
-    zchar[42 
-
-    //x
-		// @lengthOf(
-	] leftPad
-    ,roots
-u 
-    //x
-	//
-	  , } 
-packet trueish
-
-{
-    @leftPad (  )
-
-    asx
-//	t
-
-@lengthOf(  i8i8
-	) ,
-	@rightPad
-
-    (
-'\x00' 
-)
-
-tag	@lengthOf(
-    Packet
-) 
-,
-
-    Pad 
-
-// `tick` ""quote"" 'q'
-	options1 `doc`
-,
-@lengthOf( Header
-	) 
-match
-    Z9_ 
-    // c
-  	/// triple
-    as	zchar {
-4294967296  :
-
-o
-	,
-    } ,} 	 /// triple
- 
-")).
-Eval vm_compute in ("<<<M3643>>>" ++ check (runes_of_ascii "packet leftPad {
-    @calculatedFrom(""\" ++ [233]%N ++ runes_of_ascii """)
-    @rightPad('0')
-    @lengthOf(asx)
-    BodyLength trueish `it's`,
-    @leftPad('\x00')
-    A i8i8 `
-    `,
+    // c31
+    f32a x `two words`,// c35
+    char asx @lengthOf(falsey) `u8 x,`,// c42
+    @lengthOf(i64_)
+    // c45
+    uint16 chars,// c48
     @tag(0)
-    matchKey {
-        int16 falsey `line1
-        line2`,/// triple
-    },// " ++ [128512]%N ++ runes_of_ascii " emoji
-    match tag as falsey {
-        [""packet""] : i64_,
-        3 : leftPad,
-    },
-    @calculatedFrom(""// no comment"")
-    string a1,
-    @leftPad('\x00')
-    @calculatedFrom(""" ++ [28040; 24687]%N ++ runes_of_ascii """)
-    @calculatedFrom(""`tick`"")
-    repeat chars As,
-}")).
-Eval vm_compute in ("<<<M3783>>>" ++ check (runes_of_ascii "  MetaData
+    // c51
+    string _x @calculatedFrom(""abc"") `// not a comment`,// c58
+}// c59")).
+Eval vm_compute in ("<<<M1676>>>" ++ check (runes_of_ascii "  options
 
-    stringy
-//x
-{
+{LittleEndian
 
-    A
-
-MetaDataX
-    ,  } packet x { @calculatedFrom( 	 /// triple
-		""""
-
-)	char[]
-    body
-
-    `` 
-      /// triple
-
-// c
-,matchKey
-
-    @lengthOf(	uint8x	)
-    ,	} // packet A { u8 x, }
-    options 
-{
-	T
-// `tick` ""quote"" 'q'
-    	// trailing space 
-    	= true  ; 
-o// packet A { u8 x, }
-	  =
-    // c
-  	//	t
-'0' ;
-asx
-//
-= 
-4294967296
-x = ""CRC32""
-o	= zchar[
-7
-] }
-    options
-    { /// triple
-	As 
-=	false
-;  }	//x")).
-Eval vm_compute in ("<<<M1041>>>" ++ check (runes_of_ascii "root
-    packet charz // " ++ [27880; 37322]%N ++ runes_of_ascii "
-{options1 i64_ ,
-int {zchar[
-    0123456789 ] // " ++ [27880; 37322]%N ++ runes_of_ascii "
-_x , int , Pad `doc`
-    , // " ++ [128512]%N ++ runes_of_ascii " emoji
-repeat T //x
-{
-    repeat msg_type , char[]
-/// triple
-//	t
-lengthOf @lengthOf(	metadata) `tab	here` , char[] // " ++ [27880; 37322]%N ++ runes_of_ascii "
-_x
-    //x
-    , }	,
-},Logon crc
-// `tick` ""quote"" 'q'
-//
-,} MetaData chars {int16 repeatCount ,u64 float,x_y_z Logon
-    ``// @lengthOf(
+=false ;StringPrefixLenType=	u8	; ArrayPrefixLenType
+= u16
+    ; FixedStringPadFromLeft  =
+false ;  }  packet
+Heartbeat {  u8
+seqNo
 ,
-char[ 1//	t
-]	Foo ,
-zchar[ 65535]int
-,x_y_z calculatedFrom , // a // b
-}")).
-Eval vm_compute in ("<<<M1024>>>" ++ check (runes_of_ascii "// @lengthOf(
-packet // trailing space 
-falsey{
-    a1 , //
-int8 chars
-//	t
-//	t
-``,	match Packet //x
-as Z9_ { 42 :	metadata ,	}
-    ,} MetaData pack{}root packet MetaDataX {
-    @lengthOf(
-    //
-    MetaDataX )
-    repeat As{
-    match As as MetaDataX
-{
-[	""CRC32""
-    //x
-    ]:  i64_ ,	[	42 // packet A { u8 x, }
-,// " ++ [27880; 37322]%N ++ runes_of_ascii "
-65535  , 3
-// `tick` ""quote"" 'q'
-//x
-]: // packet A { u8 x, }
-Packet, 0	:
-    Z9_ 10: i8i8 //
-, } , } , }")).
-Eval vm_compute in ("<<<M4321>>>" ++ check (runes_of_ascii "root packet body {
-    // `tick` ""quote"" 'q'
-    x_y_z @calculatedFrom(""\" ++ [233]%N ++ runes_of_ascii """) `" ++ [233]%N ++ runes_of_ascii "`,
-    @lengthOf(stringy)
-    asx `crlf
-        line`,
-    @calculatedFrom(""{,}"")
-    float {
-        repeat chars `doc`,
-    },
+    @rightPad('\x00'
+)	char[8  ] x
+
+    , }
+	root
+    packet Trade  {  repeat 
+Heartbeat , 
+float32 OrderId
+
+,
+i64
+    Acct	, u16  Qty
+,  u16
+	clOrdID ,
+
+    match
+    clOrdID
+as  Body
+	{
+    131  : Heartbeat
+
+, 
 }
-
-root packet trueish {
-    uint8x `tab	here`,
-    @calculatedFrom(""it's"")
-    u16 trueish `{ , }`,
-    @lengthOf(stringy)
-    i8i8 {
-        u16 MetaDataX ``,
-        string matchKey,
-        //	t
-    },
-}")).
-Eval vm_compute in ("<<<M4214>>>" ++ check (runes_of_ascii "  MetaData  o 	 // a // b
-  	{
-u32 string_ ,
-
-    char[]
-
-    a1 `crlf
-line`,
-    int8 
-options1
-
-,
-
-    }packet 
-Foo{ 
-@lengthOf(
-
-matchKey 
-) f32 f32a,
-
-@tag(
-
-0) 	 // @lengthOf(
-    	match
-	MetaDataX	as trueish
-
-{ //	t
-  	255  :
-T ,	4294967296
-    :
-
-pack
-    // a // b
-	, 3 
-: 
-falsey  ,
-""1""	: uint8x ,
-
-7 :
-u128
-4294967296
-
-    :  
-  // " ++ [27880; 37322]%N ++ runes_of_ascii "
-	  MetaDataX  , }
 	,
 
-i32//
-roots
-,	}
+    u16	sym 
+@calculatedFrom( ""CRC32"" )
+,}
 ")).
-Eval vm_compute in ("<<<M258>>>" ++ check (runes_of_ascii "MetaData stringy
-    //x
-    { A MetaDataX ,}
-    packet  x	{ @calculatedFrom( /// triple
-"""")
-char[] body``
-/// triple
-// c
-, matchKey @lengthOf( uint8x ) , } // packet A { u8 x, }
-options{	T
-// `tick` ""quote"" 'q'
-// trailing space 
-=true
-; o// packet A { u8 x, }
+Eval vm_compute in ("<<<M117>>>" ++ check (runes_of_ascii "
+packet x { @leftPad ( )	i32 float
+,}
+    options{  chars =
+'0'
+    ;Header // c
 =
-// c
-//	t
-'0'	; asx
-    //
-    = 4294967296
-x= ""CRC32""o =
-zchar[ 7 ] } options { /// triple
-As =false ; } //x")).
-Eval vm_compute in ("<<<M933>>>" ++ check (runes_of_ascii "packet chars { @lengthOf(As )// packet A { u8 x, }
-u128 Logon /// triple
-`line1
-line2`
-,
-//x
+""`tick`""  x =
 // `tick` ""quote"" 'q'
-f32a
-, //x
-@rightPad  (
-    '\x00' )zchar[
-10] As
-    /// triple
-    `doc`, u8x
-    @lengthOf(
-// a // b
 //
-u128) ,
-    @lengthOf(	matchKey// @lengthOf(
-)@calculatedFrom(""CRC32""
-) @calculatedFrom( ""a\\"" ) repeat Z9_
-    // c
-    uint8x `u8 x,` , }")).
-Eval vm_compute in ("<<<M320>>>" ++ check (runes_of_ascii "packet Pad { int16 charz `` ,
-    @calculatedFrom(""a\""b"" // `tick` ""quote"" 'q'
-)
-    @tag(	1  )
-    zchar[ //	t
-4294967296
-    // packet A { u8 x, }
-    ] A, @rightPad () chars , // " ++ [27880; 37322]%N ++ runes_of_ascii "
-uint8x { zchar[
-0  ] // @lengthOf(
-zchar // " ++ [27880; 37322]%N ++ runes_of_ascii "
-`tab	here`
-, msg_type f32a ,u8 roots@calculatedFrom(""x y""  ) `crlf
-line`, /// triple
-As rootA
-// " ++ [27880; 37322]%N ++ runes_of_ascii "
-//
-, } , }
-")).
-Eval vm_compute in ("<<<M285>>>" ++ check (runes_of_ascii "
-MetaData o// a // b
-{ u32 string_, char[]a1
-`crlf
-line` , int8 options1 ,
-} packet
-    Foo{ @lengthOf( matchKey )f32 f32a ,
-@tag(0 ) // @lengthOf(
-match MetaDataX as trueish { //	t
-255 : T ,	4294967296 : pack
-    // a // b
-    ,	3 :falsey ,
-""1"" :uint8x ,7
-    : u128 4294967296 :
+'\x00' ; rootA = char[	65535  ] ;
+}options	{
+x =
+""it's"" asx
     // " ++ [27880; 37322]%N ++ runes_of_ascii "
-    MetaDataX
-, } , i32 //
-roots
-, }")).
-Eval vm_compute in ("<<<M712>>>" ++ check (runes_of_ascii "
-packet Foo
-    { @lengthOf( metadata) // " ++ [128512]%N ++ runes_of_ascii " emoji
-repeat len {
-matchKey lengthOf
-,
-repeat body { int8 Header	, zchar @lengthOf( x) , }
-// " ++ [128512]%N ++ runes_of_ascii " emoji
-// @lengthOf(
-, }
-    //
-    ,
-    char[
-4294967296
-]
-    _x
-, } MetaData T{repeatCount
-    trueish,
-    char[65535  ]  Pad `" ++ [233]%N ++ runes_of_ascii "` , }
-options {
-}
-options {
-u8x
-=
-    ""1"" ;}
-")).
-Eval vm_compute in ("<<<M3613>>>" ++ check (runes_of_ascii "  packet
-	_x
-	{	// packet A { u8 x, }
-    repeat
-u8
-
-// @lengthOf(
-	//	t
-
-  Logon
-,match
-Packet	as
-	repeatCount
-    {  65535
-
-    :
-
-leftPad,
-    [7
-	] :
-rootA 4294967296 
-:  Header,[
-	00	// trailing space 
-      ] :u8x	, 42 :
-MetaDataX ,
-007 :
-        // " ++ [27880; 37322]%N ++ runes_of_ascii "
-// " ++ [27880; 37322]%N ++ runes_of_ascii "
-
-uint8x,	// @lengthOf(
-		}
-	,  }
-")).
-Eval vm_compute in ("<<<M4106>>>" ++ check (runes_of_ascii "MetaData As {
-    zchar[255] repeatCount,
-    u32 lengthOf `u8 x,`,
-    o crc,
-    a1 u,
-    BodyLength matchKey,
-    char[00] options1 `
-    `,
-}
-
-packet u8x {
-    char[0] As @calculatedFrom(""packet""),
-    @calculatedFrom(""\" ++ [233]%N ++ runes_of_ascii """)
-    @lengthOf(int)
-    repeat trueish T,
-    float32 o `u8 x,`,
-}
-//	t")).
-Eval vm_compute in ("<<<M1567>>>" ++ check (runes_of_ascii "root packet Foo // " ++ [128512]%N ++ runes_of_ascii " emoji
-{ } options {
-    // a // b
-    tag // `tick` ""quote"" 'q'
-= //	t
-""""
-    ; u8x = zchar[0  ] }
-MetaData
-    int {zchar[ 10]
-lengthOf	`` , i64 u8x`// not a comment` ,MetaDataX options// `tick` ""quote"" 'q'
-`crlf
-line`
-, Logon charz `crlf
-line`
-    ,
-    // a // b
-    }
-")).
-Eval vm_compute in ("<<<M1447>>>" ++ check (runes_of_ascii "root packet Foo // " ++ [128512]%N ++ runes_of_ascii " emoji
-{ } options {
-    // a // b
-    true // `tick` ""quote"" 'q'
-= //	t
-""""
-    ; u8x = zchar[0  ] }
-MetaData
-    int {zchar[ 10]
-lengthOf	`` , i64 u8x`// not a comment` ,MetaDataX pack// `tick` ""quote"" 'q'
-`crlf
-line`
-, Logon charz `crlf
-line`
-    ,
-    // a // b
-    }
-")).
-Eval vm_compute in ("<<<M1496>>>" ++ check (runes_of_ascii "root packet Foo // " ++ [128512]%N ++ runes_of_ascii " emoji
-{ } options {
-    // a // b
-    tag // `tick` ""quote"" 'q'
-= //	t
-""""
-    ; u8x = zchar[0  ] }
-int
-    MetaData {zchar[ 10]
-lengthOf	`` , i64 u8x`// not a comment` ,MetaDataX pack// `tick` ""quote"" 'q'
-`crlf
-line`
-, Logon charz `crlf
-line`
-    ,
-    // a // b
-    }
-")).
-Eval vm_compute in ("<<<M1479>>>" ++ check (runes_of_ascii "root packet Foo // " ++ [128512]%N ++ runes_of_ascii " emoji
-{ } options {
-    // a // b
-    tag // `tick` ""quote"" 'q'
-= //	t
-""""
-    ; u8x = zchar[  ] }
-MetaData
-    int {zchar[ 10]
-lengthOf	`` , i64 u8x`// not a comment` ,MetaDataX pack// `tick` ""quote"" 'q'
-`crlf
-line`
-, Logon charz `crlf
-line`
-    ,
-    // a // b
-    }
-")).
-Eval vm_compute in ("<<<M1544>>>" ++ check (runes_of_ascii "root packet Foo // " ++ [128512]%N ++ runes_of_ascii " emoji
-{ } options {
-    // a // b
-    tag // `tick` ""quote"" 'q'
-= //	t
-""""
-    ; u8x = zchar[0  ] }
-MetaData
-    int {zchar[ 10]
-lengthOf	`` , i64 `// not a comment` ,MetaDataX pack// `tick` ""quote"" 'q'
-`crlf
-line`
-, Logon charz `crlf
-line`
-    ,
-    // a // b
-    }
-")).
-Eval vm_compute in ("<<<M224>>>" ++ check (runes_of_ascii "packet MetaDataX {	int64 x_y_z //
-@calculatedFrom( ""// no comment""
-// packet A { u8 x, }
-// `tick` ""quote"" 'q'
-)
-, }	MetaData int { u16 // packet A { u8 x, }
-roots , zchar[ 7 // " ++ [27880; 37322]%N ++ runes_of_ascii "
-]u8x ,  int16 //x
-Logon, } MetaData i64_ // a // b
-{// c
-zchar[ 1 ] // `tick` ""quote"" 'q'
-crc	, }
-
-")).
-Eval vm_compute in ("<<<M988>>>" ++ check (runes_of_ascii "root packet pack { zchar[00	] falsey
-// trailing space 
-// " ++ [27880; 37322]%N ++ runes_of_ascii "
-, // " ++ [27880; 37322]%N ++ runes_of_ascii "
-leftPad, uint64 stringy @calculatedFrom(""\n"") // " ++ [27880; 37322]%N ++ runes_of_ascii "
-`" ++ [28040; 24687; 31867; 22411]%N ++ runes_of_ascii "` ,}
-root packet
-    pack {@tag(
-    65535
-    // " ++ [27880; 37322]%N ++ runes_of_ascii "
-    ) zchar[  007//x
-]
-    uint8x `crlf
-line`
-, }
-options { Header
-    =//	t
-""CRC32"" ;
-}")).
-Eval vm_compute in ("<<<M3495>>>" ++ check (runes_of_ascii "packet P1 {
-    u8 a,
-}
-packet P2 {
-    P1,
-}
-packet P3 {
-    P2,
-    P1,
-}
-packet P4 {
-    repeat P3,
-    P2,
-}
-root packet P5 {
-    P4,
-    P3,
-    P1,
-    u8 K,
-    match K as Body {
-        4 : P4,
-        3 : P3,
-        2 : P2,
-        1 : P1,
-    },
-}
-")).
-Eval vm_compute in ("<<<M4071>>>" ++ check (runes_of_ascii "root packet Foo {
-}
-
-options {
-    // a // b
-    tag = """";
-    u8x = zchar[0]
-}
-
-MetaData int {
-    zchar[10] lengthOf ``,
-    i64 u8x `// not a comment`,
-    MetaDataX pack `crlf
-        line`,
-    Logon charz `crlf
-        " ++ [8232]%N ++ runes_of_ascii "line`,
-    // a // b
-}")).
-Eval vm_compute in ("<<<M297>>>" ++ check (runes_of_ascii "
-packet As
-{
-} MetaData Logon { i16 falsey
-`a\` // `tick` ""quote"" 'q'
-, } MetaData T { f64 uint8x `u8 x,` , // " ++ [128512]%N ++ runes_of_ascii " emoji
-char[	00 // @lengthOf(
-] T , char[
-    0
-    ]
-Pad
-// c
-// c
-`crlf
-line` , char[]
-    f32a ,
-char[] asx
-    , } //	t")).
-Eval vm_compute in ("<<<M1392>>>" ++ check (runes_of_ascii "MetaData matchKey// `tick` ""quote"" 'q'
-{ metadata u8x
-    ,int8 chars ,
-// @lengthOf(
-//
-MetaDataX u128``
-, }MetaData As{ uint8x
-u , u32
-falsey `" ++ [28040; 24687; 31867; 22411]%N ++ runes_of_ascii "` ,
-zchar[ 1 ] tag ,
-    zchar[ 0 ] float
-,
-char[]  metadata
-, } // @lengthOf(")).
-Eval vm_compute in ("<<<M1388>>>" ++ check (runes_of_ascii "options{ roots =0123456789; body = int64
-repeatCount = ""// no comment""
-; pack  =
-""abc""
-    ;charz =// " ++ [27880; 37322]%N ++ runes_of_ascii "
-string ;
-/// triple
-// " ++ [128512]%N ++ runes_of_ascii " emoji
-}
-packet //
-trueish{ @calculatedFrom( ""a	b""	) repeat u16 As
-    `" ++ [233]%N ++ runes_of_ascii "` // " ++ [128512]%N ++ runes_of_ascii " emoji
-, }
-")).
-Eval vm_compute in ("<<<M2338>>>" ++ check (runes_of_ascii "MetaData Packet { }packet	asx  { @lengthOf( asx) falsey`crlf
-line`
-,
-    }
-    packet x	{uint32// @lengthOf(
-rootA	,u32 options1 `say ""hi""` , @tag( @tag(
-    )// packet A { u8 x, }
-msg_type @lengthOf(
-stringy	)	, }
-
-")).
-Eval vm_compute in ("<<<M2302>>>" ++ check (runes_of_ascii "MetaData Packet { }packet	asx  { @lengthOf( asx) falsey`crlf
-line`
-,
-    }
-    packet x	{uint32// @lengthOf(
-,	rootA u32 options1 `say ""hi""` , @tag( 7
-    )// packet A { u8 x, }
-msg_type @lengthOf(
-stringy	)	, }
-
-")).
-Eval vm_compute in ("<<<M2297>>>" ++ check (runes_of_ascii "MetaData Packet { }packet	asx  { @lengthOf( asx) falsey`crlf
-line`
-,
-    }
-    packet x	{rootA// @lengthOf(
-uint32	,u32 options1 `say ""hi""` , @tag( 7
-    )// packet A { u8 x, }
-msg_type @lengthOf(
-stringy	)	, }
-
-")).
-Eval vm_compute in ("<<<M2340>>>" ++ check (runes_of_ascii "MetaData Packet { }packet	asx  { @lengthOf( asx) falsey`crlf
-line`
-,
-    }
-    packet x	{uint32// @lengthOf(
-rootA	,u32 options1 `say ""hi""` , @tag( 7
-    // packet A { u8 x, }
-msg_type @lengthOf(
-stringy	)	, }
-
-")).
-Eval vm_compute in ("<<<M2230>>>" ++ check (runes_of_ascii "MetaData Packet { }	asx  { @lengthOf( asx) falsey`crlf
-line`
-,
-    }
-    packet x	{uint32// @lengthOf(
-rootA	,u32 options1 `say ""hi""` , @tag( 7
-    )// packet A { u8 x, }
-msg_type @lengthOf(
-stringy	)	, }
-
-")).
-Eval vm_compute in ("<<<M2350>>>" ++ check (runes_of_ascii "MetaData Packet { }packet	asx  { @lengthOf( asx) falsey`crlf
-line`
-,
-    }
-    packet x	{uint32// @lengthOf(
-rootA	,u32 options1 `say ""hi""` , @tag( 7
-    )// packet A { u8 x, }
-msg_type 
-stringy	)	, }
-
-")).
-Eval vm_compute in ("<<<M680>>>" ++ check (runes_of_ascii "packet len{} options{
-o =
-uint32 ;
-    uint8x
-= 65535
-    // trailing space 
-    ; crc =
-    true ;
-    tag=
-// " ++ [27880; 37322]%N ++ runes_of_ascii "
-// a // b
-i16 ; } packet
-// `tick` ""quote"" 'q'
-// " ++ [128512]%N ++ runes_of_ascii " emoji
-u8x
-{ pack body ,  }
-")).
-Eval vm_compute in ("<<<M4053>>>" ++ check (runes_of_ascii "MetaData stringy
-    {
-zchar[
-    255 
-]
-    u
-	`
-`  , 	 // packet A { u8 x, }
-
-	string repeatCount ,As  i8i8
-`{ , }`
-
-    ,string
-    x_y_z 
-
-    // c
-	, uint16 Pad	, uint32
-asx
-,
-}
-
-")).
-Eval vm_compute in ("<<<M4262>>>" ++ check (runes_of_ascii "
-root packet  chars
-
-    { repeat
-    a1  { trueish	x `" ++ [28040; 24687; 31867; 22411]%N ++ runes_of_ascii "` ,	},
-
-    }
-    MetaData
-metadata {
-	int32
-	int ,
-f64
-
-uint8x
-    `say ""hi""` //
-
-,
-
-i64
-
-rootA
-
-`crlf
-line`  ,
-
-}")).
-Eval vm_compute in ("<<<M3468>>>" ++ check (runes_of_ascii "packet A {
-    u8 a,
-}
-packet B {
-    u16 b,
-}
-root packet P {
-    u8 K1,
-    u8 K2,
-    match K1 as M1 {
-        1 : A,
-    },
-    match K2 as M2 {
-        1 : B,
-    },
-}
-")).
-Eval vm_compute in ("<<<M3832>>>" ++ check (runes_of_ascii "MetaData stringy {
-    zchar[255] u `
-        `,// packet A { u8 x, }
-    string repeatCount,
-    As i8i8 `{ , }`,
-    string x_y_z,
-    uint16 Pad,
-    uint32 asx,
-}")).
-Eval vm_compute in ("<<<M4179>>>" ++ check (runes_of_ascii "
-
-  packet
-
-    string_  { @calculatedFrom(  ""abc""
-)
-
-    @calculatedFrom(
-    """ ++ [28040; 24687]%N ++ runes_of_ascii """ )
-
-@rightPad( 
+    = char[ 007] ;  zchar= int8 ;
 //	t
-// packet A { u8 x, }
-'0'	)crc len `tab	here`
-
-,	} ")).
-Eval vm_compute in ("<<<M3734>>>" ++ check (runes_of_ascii "// c
-packet f32a {
-}
-
-MetaData rootA {
-    zchar[007] As,
-    A u,
-    a1 A,
-}
-
-root packet Logon {
-    @tag(1)
-    x_y_z {
-        repeat u _x,
-    },
-}")).
-Eval vm_compute in ("<<<M119>>>" ++ check (runes_of_ascii "MetaData  trueish {
-    chars	u8x // trailing space 
-,
-A chars ,i8i8 asx `tab	here`
-    ,char[ 3 ]
-body	`" ++ [233]%N ++ runes_of_ascii "`,
-    zchar[	00	]
-u128 ,
-}
+// a // b
+zchar =true ; chars= char[]
 /// triple
+// `tick` ""quote"" 'q'
+}
+    options {  o  = 7 Logon
+=	10 /// triple
+body =
+    false a1 // c
+= ""x y"" }
 ")).
-Eval vm_compute in ("<<<M4145>>>" ++ check (runes_of_ascii "
-
-  packet
-
-Logon {	@tag(
-42
-    )
-
-    @rightPad 
-        // c
-    (  ' ' 
-)
-
-    @leftPad (
-) 
-repeat
-
-trueish	{
-	string
-
-    T,
-},}
-")).
-Eval vm_compute in ("<<<M1508>>>" ++ check (runes_of_ascii "root packet Foo // " ++ [128512]%N ++ runes_of_ascii " emoji
-{ } options {
-    // a // b
-    tag // `tick` ""quote"" 'q'
-= //	t
-""""
-    ; u8x = zchar[0  ] }
-MetaData
-    int")).
-Eval vm_compute in ("<<<M3186>>>" ++ check (runes_of_ascii "// top
-MetaData
+Eval vm_compute in ("<<<M9>>>" ++ check (runes_of_ascii "options { i64_ =// a // b
+""it's"" ;
+Foo =  ""\n""	; x_y_z = '\x00';
+len= '0'
+}	root packet Packet
+{ @tag(  0)  match	crc
+as A// " ++ [27880; 37322]%N ++ runes_of_ascii "
+{[ ""`tick`"",
+    ""`tick`""
+// @lengthOf(
+// a // b
+, ""packet""
+,
+    ""CRC32""
+    ,
+// " ++ [27880; 37322]%N ++ runes_of_ascii "
+//
+""\n""
+,""a\\""
+,
+    255 ]
+    : T // c
+} // @lengthOf(
+, repeat float64 x,
+zchar[ 00 // `tick` ""quote"" 'q'
+] chars,
+} //	t")).
+Eval vm_compute in ("<<<M1249>>>" ++ check (runes_of_ascii "// top
+packet
     // c0
-zchar
+calculatedFrom
     // c1
 {
     // c2
-zchar[
+@tag(
     // c3
-3
+4294967296
     // c4
-]
+)
     // c5
-Pad
+u
     // c6
-,
+msg_type
     // c7
-}
+,
     // c8
+char[
+    // c9
+3
+    // c10
+]
+    // c11
+crc
+    // c12
+@lengthOf(
+    // c13
+len
+    // c14
+)
+    // c15
+`u8 x,`
+    // c16
+,
+    // c17
+}
+    // c18
 ")).
-Eval vm_compute in ("<<<M1678>>>" ++ check (runes_of_ascii "root packet /// triple
-rootA {	i32
-MetaDataX@calculatedFrom( ""CRC32"" ) `line1
-line2` , } } MetaData BodyLength {
-u8
-rootA, } // c")).
-Eval vm_compute in ("<<<M1669>>>" ++ check (runes_of_ascii "root packet /// triple
-rootA {	i32
-MetaDataX@calculatedFrom( ""CRC32"" ) , `line1
-line2` } MetaData BodyLength {
-u8
-rootA, } // c")).
-Eval vm_compute in ("<<<M3841>>>" ++ check (runes_of_ascii "packet A {
+Eval vm_compute in ("<<<M264>>>" ++ check (runes_of_ascii "
+packet tag { char[]i64_
+    `crlf
+line`, @tag(4294967296	)
+repeat // c
+f32a { char[]
+u8x @lengthOf( Foo)
+    `{ , }` ,
+match
+Foo // " ++ [128512]%N ++ runes_of_ascii " emoji
+as
+packetx {255 : uint8x [	""\" ++ [233]%N ++ runes_of_ascii """ ]
+: matchKey ,} ,	},
+As @calculatedFrom( ""a	b"" )
+`doc`, char[] BodyLength `two words`	, }
+")).
+Eval vm_compute in ("<<<M108>>>" ++ check (runes_of_ascii "packet T {	match Packet as
+// c
+// " ++ [27880; 37322]%N ++ runes_of_ascii "
+Header { 42 : BodyLength , ""// no comment""
+// `tick` ""quote"" 'q'
+// packet A { u8 x, }
+: matchKey ""`tick`"" :
+crc ,	[ 1  ]	:o, } ,	}// " ++ [128512]%N ++ runes_of_ascii " emoji
+packet As {
+} options  { u128
+= //x
+' '
+body=
+    char[] }
+")).
+Eval vm_compute in ("<<<M487>>>" ++ check (runes_of_ascii "options
+{
+matchKey = 42/// triple
+x='0' ;
+// packet A { u8 x, }
+//
+charz
+=
+// packet A { u8 x, }
+// trailing space 
+true  ; } MetaData BodyLength
+{
+uint8
+pack,zchar[ zchar[ 1]float ,  float32 x_y_z `` ,u32
+_x,i16 body  , }
+")).
+Eval vm_compute in ("<<<M454>>>" ++ check (runes_of_ascii "options
+{
+matchKey = 42/// triple
+x='0' ;
+// packet A { u8 x, }
+//
+charz
+=
+// packet A { u8 x, }
+// trailing space 
+true  ; ""\n"" MetaData BodyLength
+{
+uint8
+pack,zchar[ 1]float ,  float32 x_y_z `` ,u32
+_x,i16 body  , }
+")).
+Eval vm_compute in ("<<<M474>>>" ++ check (runes_of_ascii "options
+{
+matchKey = 42/// triple
+x='0' ;
+// packet A { u8 x, }
+//
+charz
+=
+// packet A { u8 x, }
+// trailing space 
+true  ; } MetaData BodyLength
+{
+Packet
+pack,zchar[ 1]float ,  float32 x_y_z `` ,u32
+_x,i16 body  , }
+")).
+Eval vm_compute in ("<<<M449>>>" ++ check (runes_of_ascii "options
+{
+matchKey = 42/// triple
+x='0' ;
+// packet A { u8 x, }
+//
+charz
+=
+// packet A { u8 x, }
+// trailing space 
+true  } } MetaData BodyLength
+{
+uint8
+pack,zchar[ 1]float ,  float32 x_y_z `` ,u32
+_x,i16 body  , }
+")).
+Eval vm_compute in ("<<<M491>>>" ++ check (runes_of_ascii "options
+{
+matchKey = 42/// triple
+x='0' ;
+// packet A { u8 x, }
+//
+charz
+=
+// packet A { u8 x, }
+// trailing space 
+true  ; } MetaData BodyLength
+{
+uint8
+pack,zchar[ ]float ,  float32 x_y_z `` ,u32
+_x,i16 body  , }
+")).
+Eval vm_compute in ("<<<M1821>>>" ++ check (runes_of_ascii "root packet BodyLength {
+    metadata {
+        calculatedFrom,
+        zchar[007] msg_type @lengthOf(int) `say ""hi""`,
+        chars uint8x,
+        string As @calculatedFrom(""a	b"") `
+        `,/// triple
+    },
+}")).
+Eval vm_compute in ("<<<M1414>>>" ++ check (runes_of_ascii "
+root packet
+	Frame{
+
+    u8 K
+,Logon
+	first ,
+match K
+
+as
+Body{
+	1
+    :
+Logon
+    ,2
+    :
+    Logout , 
+}  ,}
+packet
+Logon
+
+    { string
+    user ,	} packet
+	Logout
+{ u16 reason,
+	}
+")).
+Eval vm_compute in ("<<<M691>>>" ++ check (runes_of_ascii "// c
+packet i64_ {	char[] calculatedFrom , } packet
+trueish  {@calculatedFrom(
+""a\\"" ) char[] { i32 falsey@lengthOf( uint8x ),
+} , } // `tick` ""quote"" 'q'
+options {// c
+Z9_ = ' '//
+}
+")).
+Eval vm_compute in ("<<<M679>>>" ++ check (runes_of_ascii "// c
+packet { i64_	char[] calculatedFrom , } packet
+trueish  {@calculatedFrom(
+""a\\"" ) o { i32 falsey@lengthOf( uint8x ),
+} , } // `tick` ""quote"" 'q'
+options {// c
+Z9_ = ' '//
+}
+")).
+Eval vm_compute in ("<<<M242>>>" ++ check (runes_of_ascii "  options{
+    // trailing space 
+    A = ' '
+    ; calculatedFrom
+// c
+// a // b
+=
+    ""a\""b""
+;
+msg_type  =	char[ 4294967296] ;
+    //
+    rootA
+= '\x00' msg_type	= false }")).
+Eval vm_compute in ("<<<M1806>>>" ++ check (runes_of_ascii "packet A {
     match k as n {
         [
-            1, 22, 007, 4, 5,
-            66, 7
+            ""a"", 22, ""c c"", 4, ""e"",
+            66, ""g"", 8, ""i"", 10,
+            ""k""
         ] : B,
         2 : C,
     },
 }")).
-Eval vm_compute in ("<<<M3022>>>" ++ check (runes_of_ascii "packet A {
+Eval vm_compute in ("<<<M353>>>" ++ check (runes_of_ascii "packet x  {match u128
+as stringy// " ++ [128512]%N ++ runes_of_ascii " emoji
+{ // a // b
+[ """ ++ [28040; 24687]%N ++ runes_of_ascii """
+    //	t
+    ,	42 , ""// no comment"" // a // b
+,""1""] :MetaDataX
+, ""it's"" :o	,} ,
+    }
+")).
+Eval vm_compute in ("<<<M1790>>>" ++ check (runes_of_ascii "
+packet
+Logon {
+
+    @tag(
+    42
+) @rightPad (
+
+' '
+	) @leftPad
+
+    (
+
+)  repeat  trueish
+
+    {
+    // c
+	string
+T	,}
+, }
+
+")).
+Eval vm_compute in ("<<<M299>>>" ++ check (runes_of_ascii "
+packet a1
+{ match i8i8
+    as repeatCount
+    // c
+    { [ 00
+    ] : crc, 3 :f32a 7 : matchKey , 0123456789	: float
+    } , }
+")).
+Eval vm_compute in ("<<<M1850>>>" ++ check (runes_of_ascii "packet A {
     u16 len @lengthOf(body) `a
-    b
-  c`,
+        b`,
     u32 crc @calculatedFrom(""CRC32"") `a
-    b
-  c`,
+        b`,
     string body,
 }")).
-Eval vm_compute in ("<<<M1346>>>" ++ check (runes_of_ascii "MetaData
-    Logon {string
-uint8x , msg_type
-    Z9_  `{ , }`
-    , f64 As`it's`
-//x
-// packet A { u8 x, }
-, uint8	o , }
-")).
-Eval vm_compute in ("<<<M1498>>>" ++ check (runes_of_ascii "root packet Foo // " ++ [128512]%N ++ runes_of_ascii " emoji
-{ } options {
-    // a // b
-    tag // `tick` ""quote"" 'q'
-= //	t
-""""
-    ; u8x = zchar[0  ] }")).
-Eval vm_compute in ("<<<M1888>>>" ++ check (runes_of_ascii "packet
-    Pad // a // b
-{ i8i8 @calcul" ++ [8232]%N ++ runes_of_ascii "atedFrom( ""a	b"") `u8 x,` ,
-} options{ float// " ++ [128512]%N ++ runes_of_ascii " emoji
-= f64 i64_
-=//	t
-00 }
-")).
-Eval vm_compute in ("<<<M1852>>>" ++ check (runes_of_ascii "packet
-    Pad // a // b
-{ i8i8 @calculatedFrom( ""a	b"") `u8 x,` ,
-} options{ float// " ++ [128512]%N ++ runes_of_ascii " emoji
-= i64_ f64
-=//	t
-00 }
-")).
-Eval vm_compute in ("<<<M358>>>" ++ check (runes_of_ascii "MetaData Packet { u128  u128 `say ""hi""` ,
-    // @lengthOf(
-    zchar
-    len ,
-Pad T `say ""hi""` // " ++ [128512]%N ++ runes_of_ascii " emoji
+Eval vm_compute in ("<<<M71>>>" ++ check (runes_of_ascii "options{ BodyLength=
+    '\x00' }options
+{ } options {  Pad
+    = ""\" ++ [233]%N ++ runes_of_ascii """  msg_type
+= uint32 ; a1 = '0'  Foo =
+    ' ' ; }")).
+Eval vm_compute in ("<<<M2001>>>" ++ check (runes_of_ascii "packet Logon {
+    @tag(42)
+    @rightPad(' ')
+    // c
+    @leftPad()
+    repeat trueish {
+        string T,
+    },
+}")).
+Eval vm_compute in ("<<<M594>>>" ++ check (runes_of_ascii "MetaData
+    // trailing space 
+    repeat
+{ u64 chars // a // b
+,char[] lengthOf `// not a comment`
+    , //	t
+}")).
+Eval vm_compute in ("<<<M913>>>" ++ check (runes_of_ascii "packet A {
+  match k as n {
+    [""a"", ""bb"", 007, ""d"", ""e"", 66, ""g"", ""h"", 9, ""j"", ""k"", 12] : B,
+    2 : C
+  },
+}")).
+Eval vm_compute in ("<<<M1803>>>" ++ check (runes_of_ascii "// c
+packet calculatedFrom {
+    @tag(4294967296)
+    u msg_type,
+    char[3] crc @lengthOf(len) `u8 x,`,
+}")).
+Eval vm_compute in ("<<<M1255>>>" ++ check (runes_of_ascii "packet calculatedFrom // c
+{ @tag( 4294967296 ) u msg_type , char[ 3 ] crc @lengthOf( len ) `u8 x,` , }")).
+Eval vm_compute in ("<<<M1287>>>" ++ check (runes_of_ascii "packet calculatedFrom { @tag( 4294967296 ) u msg_type , char[ 3 ] crc @lengthOf( len ) `u8 x,` , // c
+}")).
+Eval vm_compute in ("<<<M1546>>>" ++ check (runes_of_ascii "
+MetaData 
+    // trailing space 
+	  matchKey	{  u64 chars// a // b
 ,
-}
-")).
-Eval vm_compute in ("<<<M4475>>>" ++ check (runes_of_ascii "MetaData
-u
-
-{
-    stringy
-metadata `// not a comment`
-
-    , u8
-	len  ,
-	_x
-    a1  ,
-string	Z9_
-
-    ,  }
-")).
-Eval vm_compute in ("<<<M3000>>>" ++ check (runes_of_ascii "packet A {
-  match k as n {
-    [""a"", ""bb"", 007, ""d"", ""e"", 66, ""g"", ""h"", 9, ""j"", ""k"", 12] : B
-    2 : C
-  },
-}")).
-Eval vm_compute in ("<<<M3848>>>" ++ check (runes_of_ascii "  packet
-	Logon
-
-{ @tag(42 ) 
-@rightPad
-    ( 	 // c
-  ' '
-) @leftPad()  repeat
-	trueish 
-{string  T, },
-	}")).
-Eval vm_compute in ("<<<M3375>>>" ++ check (runes_of_ascii "packet calculatedFrom { @tag( 4294967296 ) u msg_type , char[ 3 ] crc @lengthOf( len ) `u8 x,` , } // c
-")).
-Eval vm_compute in ("<<<M3356>>>" ++ check (runes_of_ascii "packet calculatedFrom { @tag( 4294967296 ) u msg_type ,
+char[]lengthOf
+,	//	t
+  }")).
+Eval vm_compute in ("<<<M1133>>>" ++ check (runes_of_ascii "packet Logon
 // c
-char[ 3 ] crc @lengthOf( len ) `u8 x,` , }")).
-Eval vm_compute in ("<<<M4409>>>" ++ check (runes_of_ascii "
-packet A  {
-
-    B
-b
-`a
-    b
-  c`
-
-    ,
-    B 
-`a
-    b
-  c`  ,
-
-repeat
-B bs`a
-    b
-  c` , }")).
-Eval vm_compute in ("<<<M1125>>>" ++ check (runes_of_ascii "
-packet	crc{
-    match // trailing space 
-x_y_z
-    as Z9_{ [ 00 ]:asx }, } root packet x_y_z {}
-")).
-Eval vm_compute in ("<<<M3799>>>" ++ check (runes_of_ascii "packet  A
-
-    {  Logon {	repeat
-
-    char[
-42 ]	falsey
-
-`a\` ,
-	repeat int32	T
-,
-    } ,	}
-")).
-Eval vm_compute in ("<<<M3232>>>" ++ check (runes_of_ascii "packet Logon { @tag( 42 ) @rightPad ( ' ' // c
-) @leftPad ( ) repeat trueish { string T , } , }")).
-Eval vm_compute in ("<<<M1375>>>" ++ check (runes_of_ascii "options	{
-    repeatCount='0'
-    roots =
-""\" ++ [233]%N ++ runes_of_ascii """  ;int =
-f64
-Packet =
-'\x00' ;
-Z9_ = ""a\""b"" ; }")).
-Eval vm_compute in ("<<<M4203>>>" ++ check (runes_of_ascii "options {
-    Header = true;
-    pack = ""{,}"";
-}
-
-//
-/// triple
-options {
-    i8i8 = false
-}")).
-Eval vm_compute in ("<<<M1967>>>" ++ check (runes_of_ascii "root
-packet crc crc
-    { f32a @calculatedFrom( """ ++ [233]%N ++ runes_of_ascii "t" ++ [233]%N ++ runes_of_ascii """ )
-    `say ""hi""`, lengthOf `` ,  }")).
-Eval vm_compute in ("<<<M2022>>>" ++ check (runes_of_ascii "root
-packet crc
-    { f32a @calculatedFrom( """ ++ [233]%N ++ runes_of_ascii "t" ++ [233]%N ++ runes_of_ascii """ )
-    `say ""hi""`, lengthOf `` ,  } }")).
-Eval vm_compute in ("<<<M2044>>>" ++ check (runes_of_ascii "root
-packet crc
-    { na" ++ [239]%N ++ runes_of_ascii "ve @calculatedFrom( """ ++ [233]%N ++ runes_of_ascii "t" ++ [233]%N ++ runes_of_ascii """ )
-    `say ""hi""`, lengthOf `` ,  }")).
-Eval vm_compute in ("<<<M3679>>>" ++ check (runes_of_ascii "packet A {
-    match k as n {
-        [""a"", ""bb"", ""c c""] : B,
-        2 : C,
-    },
-}")).
-Eval vm_compute in ("<<<M4411>>>" ++ check (runes_of_ascii "packet A {
-    match k as n {
-        [""a"", ""bb"", 007] : B,
-        2 : C,
-    },
-}")).
-Eval vm_compute in ("<<<M3299>>>" ++ check (runes_of_ascii "packet o {
+{ @tag( 42 ) @rightPad ( ' ' ) @leftPad ( ) repeat trueish { string T , } , }")).
+Eval vm_compute in ("<<<M1165>>>" ++ check (runes_of_ascii "packet Logon { @tag( 42 ) @rightPad ( ' ' ) @leftPad ( ) repeat trueish { string T
 // c
-@tag( 42 ) repeat x { char[ 0123456789 ] i64_ , } , } options { }")).
-Eval vm_compute in ("<<<M3331>>>" ++ check (runes_of_ascii "packet o { @tag( 42 ) repeat x { char[ 0123456789 ] i64_ , } , } options {
-// c
-}")).
-Eval vm_compute in ("<<<M2924>>>" ++ check (runes_of_ascii "packet A {
-  match k as n {
-    [1, 22, 007, 4, 5, 66, 7] : B,
-    2 : C
-  },
-}")).
-Eval vm_compute in ("<<<M4057>>>" ++ check (runes_of_ascii "MetaData M {
-    u8 x `a
-        b
-      c`,
-    T t `a
-        b
-      c`,
-}")).
-Eval vm_compute in ("<<<M999>>>" ++ check (runes_of_ascii "
-MetaData
-As
-{Foo len,
-} root packet Foo { Foo x , // `tick` ""quote"" 'q'
-}")).
-Eval vm_compute in ("<<<M2890>>>" ++ check (runes_of_ascii "packet A {
-  match k as n {
-    [1, ""bb"", 007, ""d""] : B
-    2 : C
-  },
-}")).
-Eval vm_compute in ("<<<M2882>>>" ++ check (runes_of_ascii "packet A {
-  match k as n {
-    [""a"", ""bb"", 007] : B,
-    2 : C
-  },
-}")).
-Eval vm_compute in ("<<<M2162>>>" ++ check (runes_of_ascii "root
-    // `tick` ""quote"" 'q'
-    packet As As { trueish Packet , }
-")).
-Eval vm_compute in ("<<<M2949>>>" ++ check (runes_of_ascii "packet A { Inner { match k as n { [1,22,007,4,5,66,7,8] : B, }, }, }")).
-Eval vm_compute in ("<<<M2183>>>" ++ check (runes_of_ascii "root
-    // `tick` ""quote"" 'q'
-    packet As { trueish Packet } ,
-")).
-Eval vm_compute in ("<<<M1926>>>" ++ check (runes_of_ascii "
-packet	As { @calculatedFrom(//x
-""{,}""	)lengthOf lengthOf , } 	 ")).
-Eval vm_compute in ("<<<M2868>>>" ++ check (runes_of_ascii "packet A {
-  match k as n {
-    [1, ""bb""] : B
-    2 : C
-  },
-}")).
-Eval vm_compute in ("<<<M4477>>>" ++ check (runes_of_ascii "packet _x {
-    repeat crc {
-        char[7] float,
-    },
-}")).
-Eval vm_compute in ("<<<M4087>>>" ++ check (runes_of_ascii "
-root	packet 
-P	{ repeat
-char
-    cs
-
-    , u8
-x  ,
-} ")).
-Eval vm_compute in ("<<<M1819>>>" ++ check (runes_of_ascii "packet
-    Pad // a // b
-{ i8i8 @calculatedFrom( ""a	b"")")).
-Eval vm_compute in ("<<<M1920>>>" ++ check (runes_of_ascii "
-packet	As { @calculatedFrom(//x
-""{,}""	lengthOf , } 	 ")).
-Eval vm_compute in ("<<<M475>>>" ++ check (runes_of_ascii "packet i64_{@calculatedFrom( ""\" ++ [233]%N ++ runes_of_ascii """
-    )u16 a1
-, }
-")).
-Eval vm_compute in ("<<<M4416>>>" ++ check (runes_of_ascii "MetaData lengthOf {
-    i64 matchKey `say ""hi""`,
-}")).
-Eval vm_compute in ("<<<M2416>>>" ++ check (runes_of_ascii "A MetaData
-{
-i64
-chars	, } // `tick` ""quote"" 'q'")).
-Eval vm_compute in ("<<<M3707>>>" ++ check (runes_of_ascii "options {
-}
-
-options {
-}// `tick` ""quote"" 'q'\ ")).
-Eval vm_compute in ("<<<M1744>>>" ++ check (runes_of_ascii "options } {options {  } // `tick` ""quote"" 'q'")).
-Eval vm_compute in ("<<<M4451>>>" ++ check (runes_of_ascii "MetaData body {
-}// c
-
-options {
-    // " ++ [27880; 37322]%N ++ runes_of_ascii "
-}")).
-Eval vm_compute in ("<<<M2152>>>" ++ check (runes_of_ascii "MetaData na" ++ [239]%N ++ runes_of_ascii "ve
-{// " ++ [128512]%N ++ runes_of_ascii " emoji
-i16 stringy , }")).
-Eval vm_compute in ("<<<M950>>>" ++ check (runes_of_ascii "MetaData matchKey{Packet As//	t
-`" ++ [233]%N ++ runes_of_ascii "` , }
-")).
-Eval vm_compute in ("<<<M3199>>>" ++ check (runes_of_ascii "MetaData zchar { zchar[ 3
-// c
-] Pad , }")).
-Eval vm_compute in ("<<<M170>>>" ++ check (runes_of_ascii "options { Foo
-    //	t
-    = string }
-")).
-Eval vm_compute in ("<<<M345>>>" ++ check (runes_of_ascii "options
-{ Logon = //x
-'\x00'
-    ; }
-")).
-Eval vm_compute in ("<<<M2823>>>" ++ check (runes_of_ascii "7cz/x~1=[HQ/x:A(ov&qJs5T2>9H=i|j3ta[")).
-Eval vm_compute in ("<<<M2787>>>" ++ check (runes_of_ascii ";/,8.Dx&ZOZt4UM$f5a6\qFvu)[+P_;Nc*")).
-Eval vm_compute in ("<<<M2714>>>" ++ check (runes_of_ascii "( char[] ] zchar[ Foo int32 int8")).
-Eval vm_compute in ("<<<M444>>>" ++ check (runes_of_ascii "packet
+, } , }")).
+Eval vm_compute in ("<<<M339>>>" ++ check (runes_of_ascii "MetaData Z9_ {
 //	t
-/// triple
-Z9_
-{ }")).
-Eval vm_compute in ("<<<M3735>>>" ++ check (runes_of_ascii "MetaData a1 {
+// " ++ [27880; 37322]%N ++ runes_of_ascii "
+u128 Foo  , lengthOf uint8x
     // " ++ [128512]%N ++ runes_of_ascii " emoji
+    `say ""hi""` ,
+    }")).
+Eval vm_compute in ("<<<M1863>>>" ++ check (runes_of_ascii "packet
+
+    A
+
+{  match k as
+
+n
+
+{
+
+[
+""a""
+    , ""bb""  , 007 
+]  : B	,
+2	: C 
+}
+	,
+
+}
+
+")).
+Eval vm_compute in ("<<<M1969>>>" ++ check (runes_of_ascii "packet A {
+    B b `
+        x`,
+    B `
+        x`,
+    repeat B bs `
+        x`,
 }")).
-Eval vm_compute in ("<<<M2688>>>" ++ check (runes_of_ascii "Li][ahWRkj9ULC5)4z,vi9B>n""<h")).
-Eval vm_compute in ("<<<M3150>>>" ++ check (runes_of_ascii "packet A {
-}// a// b// c
+Eval vm_compute in ("<<<M1216>>>" ++ check (runes_of_ascii "packet o { @tag( 42 // c
+) repeat x { char[ 0123456789 ] i64_ , } , } options { }")).
+Eval vm_compute in ("<<<M1633>>>" ++ check (runes_of_ascii "packet A {
+    match k as n {
+        [1, ""bb"", 007] : B,
+        2 : C,
+    },
+}")).
+Eval vm_compute in ("<<<M1396>>>" ++ check (runes_of_ascii "packet
+    orderItem  { u8 a	,
+} root
+packet newOrder{	orderItem	, u8 x	,}
 ")).
-Eval vm_compute in ("<<<M4037>>>" ++ check (runes_of_ascii "// c 
-	packet A
-    {  }
+Eval vm_compute in ("<<<M1338>>>" ++ check (runes_of_ascii "packet Inner {
+    u8 a,
+}
+root packet P {
+    Inner ref_obj,
+    u8 x,
+}
 ")).
-Eval vm_compute in ("<<<M114>>>" ++ check (runes_of_ascii "//	t
-packet
-Logon { } 	 ")).
-Eval vm_compute in ("<<<M3280>>>" ++ check (runes_of_ascii "options { u8x = 3
+Eval vm_compute in ("<<<M1328>>>" ++ check (runes_of_ascii "MetaData _x { zchar[ 4294967296 ] lengthOf `// not a comment` , }
 // c
+")).
+Eval vm_compute in ("<<<M797>>>" ++ check (runes_of_ascii "packet A {
+  match k as n {
+    [""a"", ""bb"", 007] : B
+    2 : C
+  },
 }")).
-Eval vm_compute in ("<<<M4165>>>" ++ check (runes_of_ascii "
-// packet A { u8 x, }
-")).
-Eval vm_compute in ("<<<M1390>>>" ++ check (runes_of_ascii "MetaData
-Header	{  }
-")).
-Eval vm_compute in ("<<<M2617>>>" ++ check (runes_of_ascii "packet A { @tag(1) }")).
-Eval vm_compute in ("<<<M3126>>>" ++ check (runes_of_ascii "packet A {
+Eval vm_compute in ("<<<M2028>>>" ++ check (runes_of_ascii "packet A { match 
+k as n {	[  1
+	,22  , 007 ]
+:
+
+B
+	,  2
+:	C }
+,}")).
+Eval vm_compute in ("<<<M228>>>" ++ check (runes_of_ascii "packet Z9_
+    { body MetaDataX , } MetaData asx  {
+} //	t")).
+Eval vm_compute in ("<<<M277>>>" ++ check (runes_of_ascii "  MetaData/// triple
+pack{
+i64 Header
+, u64
+As
+,
 }
-// c 	")).
-Eval vm_compute in ("<<<M3061>>>" ++ check (runes_of_ascii "packet A {
+")).
+Eval vm_compute in ("<<<M600>>>" ++ check (runes_of_ascii "MetaData
+    // trailing space 
+    matchKey")).
+Eval vm_compute in ("<<<M1108>>>" ++ check (runes_of_ascii "MetaData zchar { // c
+zchar[ 3 ] Pad , }")).
+Eval vm_compute in ("<<<M1811>>>" ++ check (runes_of_ascii "  packet 
+A{
+	u8
+x
+`d" ++ [8192]%N ++ runes_of_ascii "`, 	 // c" ++ [8192]%N ++ runes_of_ascii "
+} ")).
+Eval vm_compute in ("<<<M1042>>>" ++ check (runes_of_ascii "packet A {
+ u8 x `d 	`, // c 	
+}")).
+Eval vm_compute in ("<<<M1007>>>" ++ check (runes_of_ascii "packet A {
+ u8 x `d" ++ [8202]%N ++ runes_of_ascii "`, // c" ++ [8202]%N ++ runes_of_ascii "
+}")).
+Eval vm_compute in ("<<<M1804>>>" ++ check (runes_of_ascii "options {
+    u8x = 3// c
+}")).
+Eval vm_compute in ("<<<M1296>>>" ++ check (runes_of_ascii "packet // c
+lengthOf { }")).
+Eval vm_compute in ("<<<M1714>>>" ++ check (runes_of_ascii "packet	A
+{
+}// c" ++ [65279]%N ++ runes_of_ascii "
+")).
+Eval vm_compute in ("<<<M1020>>>" ++ check (runes_of_ascii "packet A {
 }
-// c ")).
-Eval vm_compute in ("<<<M3142>>>" ++ check (runes_of_ascii "// c" ++ [6158]%N ++ runes_of_ascii "
-packet A {
-}")).
-Eval vm_compute in ("<<<M3094>>>" ++ check (runes_of_ascii "packet A {
-}// c" ++ [8232]%N)).
-Eval vm_compute in ("<<<M1156>>>" ++ check (runes_of_ascii "packet o
-{//x
-}")).
-Eval vm_compute in ("<<<M753>>>" ++ check (runes_of_ascii "options { }
-")).
-Eval vm_compute in ("<<<M752>>>" ++ check (runes_of_ascii "options{}
-")).
-Eval vm_compute in ("<<<M2635>>>" ++ check (runes_of_ascii "packet A")).
-Eval vm_compute in ("<<<M2456>>>" ++ check (runes_of_ascii "string")).
-Eval vm_compute in ("<<<M2509>>>" ++ check (runes_of_ascii """a
-b""")).
-Eval vm_compute in ("<<<M2081>>>" ++ check (runes_of_ascii "Meta")).
-Eval vm_compute in ("<<<M2472>>>" ++ check (runes_of_ascii "'1'")).
-Eval vm_compute in ("<<<M2475>>>" ++ check (runes_of_ascii "'0")).
-Eval vm_compute in ("<<<M2675>>>" ++ check (runes_of_ascii "1")).
+// c" ++ [8239]%N)).
+Eval vm_compute in ("<<<M1013>>>" ++ check (runes_of_ascii "packet A {
+}// c" ++ [8233]%N)).
+Eval vm_compute in ("<<<M233>>>" ++ check (runes_of_ascii " // a // b")).
+Eval vm_compute in ("<<<M1049>>>" ++ check (runes_of_ascii "// c" ++ [65279]%N)).
